@@ -21,7 +21,54 @@ theorem report_accept (code : Code) (line col : Nat) (w : W) :
     report code line col acceptAll w = .ok () { w with log := ⟨code, line, col⟩ :: w.log } :=
   report_zero code line col acceptAll w rfl
 
+macro "lenarith" : tactic =>
+  `(tactic| first | omega | (simp [valsToks, packetsToks, itemsToks, itemToks, List.length_append] <;> omega))
+
+/-- where a report is made: at a state `j` tokens behind `s` on the scanner's walk (`At`: that state after CONSUME_TOKEN, or with
+    the next token pending), whose line is the line of the report -/
+def RepAt (o : Opts) (s : PS) (j : Nat) (r : Report) : Prop := ∃ sr, At o s j sr ∧ r.line = sr.scan.line
+
+theorem RepAt.shift {o : Opts} {s s1 : PS} {k j : Nat} {r : Report} (h : At o s k s1) (hr : RepAt o s1 j r) : RepAt o s (k + j) r := by
+  obtain ⟨sr, ha, hl⟩ := hr
+  exact ⟨sr, h.trans ha, hl⟩
+
+/-- the two forms in terms of `Reach` (Lemmas/ParserReach): the report is made in the state after the `j`-th CONSUME_TOKEN, or in
+    that state with the next token scanned and pending (then `reach_line_pending` of Lemmas/DefectChars gives its line) -/
+theorem RepAt.forms {o : Opts} {s : PS} {j : Nat} {r : Report} (h : RepAt o s j r) :
+    (∃ s₀, Reach o s j s₀ ∧ r.line = s₀.scan.line) ∨
+    (∃ s₀ t sr, Reach o s j s₀ ∧ (∀ pol w, nextTok o s₀ pol w = .ok (t, sr) w) ∧ sr.tok = some t ∧ r.line = sr.scan.line) := by
+  obtain ⟨sr, ⟨s₀, hr, rfl | ⟨t, hn, ht⟩⟩, hl⟩ := h
+  · exact Or.inl ⟨_, hr, hl⟩
+  · exact Or.inr ⟨s₀, t, sr, hr, hn, ht, hl⟩
+
+theorem RepAt.cast {o : Opts} {s : PS} {j j' : Nat} {r : Report} (h : RepAt o s j r) (e : j = j') : RepAt o s j' r := e ▸ h
+
 /-! ### missing value: a data name that is not followed by a value — a synthetic unknown value -/
+
+theorem missing_value_step_at (o : Opts) {path : Path} {put : Container → Cif} {code : Str} (hv : View o path put code)
+    (n : Str) (ty : TokType) (tx : Str) (ts : List TokSpec) (s : PS) (fuel : Nat) (w : W) (fs : List Container) (ls : List Loop)
+    (isBlock : Bool) (hcif : w.cif = put (.mk code fs ls)) (hname : wfName n = true) (hfresh : o.norm n ∉ normNames o ls)
+    (hterm : isTerminator ty = true) (hF : Feeds o s ((.name, n) :: (ty, tx) :: ts)) :
+    ∃ s' r, elemsLoop o (fuel + 1) s (some path) isBlock acceptAll w
+        = elemsLoop o fuel s' (some path) isBlock acceptAll
+            { log := r :: w.log, cif := put (.mk code fs (denoteItems o.dia o.normKey [.item n .unk] ls)) }
+      ∧ r.code = CIF_MISSING_VALUE ∧ (∃ t, s'.tok = some t ∧ t.ty = ty ∧ t.text = tx ∧ r.line = s'.scan.line)
+      ∧ Feeds o s' ((ty, tx) :: ts) ∧ RepAt o s 1 r ∧ At o s 1 s' := by
+  simp only [wfName, Bool.and_eq_true] at hname
+  obtain ⟨t, s1, hty, htx, hn, ht, hr⟩ := hF.inv
+  obtain ⟨t2, s2, hty2, htx2, hn2, ht2, hr2⟩ := hr.inv
+  have a2 : At o s 1 s2 := ((At.refl o s).step hn ht).peek hn2 ht2
+  simp only [isTerminator, Bool.not_eq_true', Bool.or_eq_false_iff] at hterm
+  refine ⟨s2, ⟨CIF_MISSING_VALUE, s2.scan.line, s2.scan.col - t2.text.length⟩, ?_, rfl, ⟨t2, ht2, hty2, htx2, rfl⟩,
+    by rw [← hty2, ← htx2]; exact Feeds.pending ht2 hr2, ⟨s2, a2, rfl⟩, a2⟩
+  conv => lhs; rw [elemsLoop]
+  simp only [bind_eq, pure_eq, P.bind, P.pure, hn, hty, htx, cstr_noNul hname.2,
+    itemExists_false o hv n fs ls acceptAll w hcif hname.1 hfresh, Bool.false_eq_true, if_false, hname.1, Bool.not_true, and_false]
+  unfold parseItem
+  simp only [bind_eq, pure_eq, P.bind, P.pure, hn2, hty2, hterm.1.1.1, hterm.1.1.2, Bool.false_eq_true, if_false, report_accept]
+  rw [setValue_new o hv n .unk fs ls acceptAll
+    ⟨⟨CIF_MISSING_VALUE, s2.scan.line, s2.scan.col - t2.text.length⟩ :: w.log, w.cif⟩ hcif hname.1 hfresh]
+  simp [denoteItems, denoteVal]
 
 theorem missing_value_step (o : Opts) {path : Path} {put : Container → Cif} {code : Str} (hv : View o path put code)
     (n : Str) (ty : TokType) (tx : Str) (ts : List TokSpec) (s : PS) (fuel : Nat) (w : W) (fs : List Container) (ls : List Loop)
@@ -32,20 +79,9 @@ theorem missing_value_step (o : Opts) {path : Path} {put : Container → Cif} {c
             { log := r :: w.log, cif := put (.mk code fs (denoteItems o.dia o.normKey [.item n .unk] ls)) }
       ∧ r.code = CIF_MISSING_VALUE ∧ (∃ t, s'.tok = some t ∧ t.ty = ty ∧ t.text = tx ∧ r.line = s'.scan.line)
       ∧ Feeds o s' ((ty, tx) :: ts) := by
-  simp only [wfName, Bool.and_eq_true] at hname
-  obtain ⟨t, s1, hty, htx, hn, _, hr⟩ := hF.inv
-  obtain ⟨t2, s2, hty2, htx2, hn2, ht2, hr2⟩ := hr.inv
-  simp only [isTerminator, Bool.not_eq_true', Bool.or_eq_false_iff] at hterm
-  refine ⟨s2, ⟨CIF_MISSING_VALUE, s2.scan.line, s2.scan.col - t2.text.length⟩, ?_, rfl, ⟨t2, ht2, hty2, htx2, rfl⟩,
-    by rw [← hty2, ← htx2]; exact Feeds.pending ht2 hr2⟩
-  conv => lhs; rw [elemsLoop]
-  simp only [bind_eq, pure_eq, P.bind, P.pure, hn, hty, htx, cstr_noNul hname.2,
-    itemExists_false o hv n fs ls acceptAll w hcif hname.1 hfresh, Bool.false_eq_true, if_false, hname.1, Bool.not_true, and_false]
-  unfold parseItem
-  simp only [bind_eq, pure_eq, P.bind, P.pure, hn2, hty2, hterm.1.1.1, hterm.1.1.2, Bool.false_eq_true, if_false, report_accept]
-  rw [setValue_new o hv n .unk fs ls acceptAll
-    ⟨⟨CIF_MISSING_VALUE, s2.scan.line, s2.scan.col - t2.text.length⟩ :: w.log, w.cif⟩ hcif hname.1 hfresh]
-  simp [denoteItems, denoteVal]
+  obtain ⟨s', r, h1, h2, h3, h4, _, _⟩ := missing_value_step_at o hv n ty tx ts s fuel w fs ls isBlock hcif hname hfresh hterm hF
+  exact ⟨s', r, h1, h2, h3, h4⟩
+
 
 /-- **missing value, universally**: any well-formed run `pre`, the name without value, any well-formed run `post` -/
 theorem missing_value_run (o : Opts) {path : Path} {put : Container → Cif} {code : Str} (hv : View o path put code)
@@ -89,6 +125,48 @@ theorem missing_value_run (o : Opts) {path : Path} {put : Container → Cif} {co
   rw [h3, h5]
   simp [denoteItems_append, denoteItems]
 
+theorem missing_value_run_at (o : Opts) {path : Path} {put : Container → Cif} {code : Str} (hv : View o path put code)
+    (pre post : List Item) (n : Str) (seen seen2 : List Str) (rest : List TokSpec) (s : PS) (fuel : Nat) (w : W)
+    (fs : List Container) (ls : List Loop) (isBlock : Bool) (hcif : w.cif = put (.mk code fs ls))
+    (hpre : wfItems o pre seen = true) (hseen : ∀ k ∈ normNames o ls, k ∈ seen)
+    (hname : wfName n = true) (hfresh : o.norm n ∉ normNames o (denoteItems o.dia o.normKey pre ls))
+    (hpost : wfItems o post seen2 = true)
+    (hseen2 : ∀ k ∈ normNames o (denoteItems o.dia o.normKey (pre ++ [.item n .unk]) ls), k ∈ seen2)
+    (hfuel : szItems pre + szItems post + 1 ≤ fuel)
+    (hpostne : post ≠ [] ∨ ∃ ty tx ts, rest = (ty, tx) :: ts ∧ isTerminator ty = true)
+    (hrest : lastIsLoop post = true → ∃ ty tx ts, rest = (ty, tx) :: ts ∧ isTerminator ty = true)
+    (hF : Feeds o s (itemsToks pre ++ ((.name, n) :: (itemsToks post ++ rest)))) :
+    ∃ s' r, elemsLoop o (fuel + post.length + 1 + pre.length) s (some path) isBlock acceptAll w
+        = elemsLoop o fuel s' (some path) isBlock acceptAll
+            { log := r :: w.log, cif := put (.mk code fs (denoteItems o.dia o.normKey (pre ++ [.item n .unk] ++ post) ls)) }
+      ∧ r.code = CIF_MISSING_VALUE ∧ Feeds o s' rest ∧ RepAt o s ((itemsToks pre).length + 1) r
+      ∧ At o s ((itemsToks pre).length + 1 + (itemsToks post).length) s' := by
+  -- the token behind the name ends the (missing) value
+  have hnext : ∃ ty tx ts, itemsToks post ++ rest = (ty, tx) :: ts ∧ isTerminator ty = true := by
+    cases post with
+    | nil =>
+      rcases hpostne with h | h
+      · exact absurd rfl h
+      · simpa [itemsToks] using h
+    | cons i r =>
+      obtain ⟨ty, tx, ts, h, ht⟩ := itemToks_head i
+      exact ⟨ty, tx, ts ++ (itemsToks r ++ rest), by simp [itemsToks, h], ht⟩
+  obtain ⟨ty, tx, ts, hnx, hterm⟩ := hnext
+  obtain ⟨s1, h1, h2, ha2⟩ := items_structure_at o hv pre seen _ s (fuel + post.length + 1) acceptAll w fs ls isBlock hcif hpre hseen
+    (by omega) (fun _ => ⟨_, _, _, rfl, rfl⟩) hF
+  rw [hnx] at h2
+  obtain ⟨s2, r, h3, hr, _, h4, hrep, ha4⟩ := missing_value_step_at o hv n ty tx ts s1 (fuel + post.length)
+    { w with cif := put (.mk code fs (denoteItems o.dia o.normKey pre ls)) } fs _ isBlock rfl hname hfresh hterm h2
+  rw [← hnx] at h4
+  obtain ⟨s3, h5, h6, ha6⟩ := items_structure_at o hv post seen2 rest s2 fuel acceptAll
+    { log := r :: w.log, cif := put (.mk code fs (denoteItems o.dia o.normKey [.item n .unk] (denoteItems o.dia o.normKey pre ls))) }
+    fs _ isBlock rfl hpost (by simpa [denoteItems_append] using hseen2) (by omega) hrest h4
+  refine ⟨s3, r, ?_, hr, h6, RepAt.shift ha2 hrep, (ha2.trans ha4).trans ha6⟩
+  rw [h1]
+  have e : fuel + post.length + 1 = fuel + post.length + 1 := rfl
+  rw [h3, h5]
+  simp [denoteItems_append, denoteItems]
+
 
 /-! ### the generic composition: well-formed run, ONE defective construct, well-formed run -/
 
@@ -123,13 +201,43 @@ theorem defect_run (o : Opts) {path : Path} {put : Container → Cif} {code : St
     (by omega) hrest h4
   exact ⟨s3, r, by rw [h1, h3, h5], hr, h6⟩
 
+theorem defect_run_at (o : Opts) {path : Path} {put : Container → Cif} {code : Str} (hv : View o path put code)
+    (pre post : List Item) (D : List TokSpec) (recover : List Loop → List Loop) (C : Code) (need j nD : Nat)
+    (seen seen2 : List Str) (rest : List TokSpec) (s : PS) (fuel : Nat) (w : W) (fs : List Container) (ls : List Loop) (isBlock : Bool)
+    (hcif : w.cif = put (.mk code fs ls)) (hpre : wfItems o pre seen = true) (hseen : ∀ k ∈ normNames o ls, k ∈ seen)
+    (hpost : wfItems o post seen2 = true)
+    (hseen2 : ∀ k ∈ normNames o (recover (denoteItems o.dia o.normKey pre ls)), k ∈ seen2)
+    (hstep : ∀ (s1 : PS) (w1 : W) (f : Nat), w1.cif = put (.mk code fs (denoteItems o.dia o.normKey pre ls)) → need ≤ f →
+      Feeds o s1 (D ++ (itemsToks post ++ rest)) →
+      ∃ s2 r, elemsLoop o (f + 1) s1 (some path) isBlock acceptAll w1
+          = elemsLoop o f s2 (some path) isBlock acceptAll
+              { log := r :: w1.log, cif := put (.mk code fs (recover (denoteItems o.dia o.normKey pre ls))) }
+        ∧ r.code = C ∧ Feeds o s2 (itemsToks post ++ rest) ∧ RepAt o s1 j r ∧ At o s1 nD s2)
+    (hfuel : szItems pre + szItems post + need + 1 ≤ fuel)
+    (hpreTerm : lastIsLoop pre = true → ∃ ty tx ts, D ++ (itemsToks post ++ rest) = (ty, tx) :: ts ∧ isTerminator ty = true)
+    (hrest : lastIsLoop post = true → ∃ ty tx ts, rest = (ty, tx) :: ts ∧ isTerminator ty = true)
+    (hF : Feeds o s (itemsToks pre ++ (D ++ (itemsToks post ++ rest)))) :
+    ∃ s' r, elemsLoop o (fuel + post.length + 1 + pre.length) s (some path) isBlock acceptAll w
+        = elemsLoop o fuel s' (some path) isBlock acceptAll
+            { log := r :: w.log, cif := put (.mk code fs (denoteItems o.dia o.normKey post (recover (denoteItems o.dia o.normKey pre ls)))) }
+      ∧ r.code = C ∧ Feeds o s' rest ∧ RepAt o s ((itemsToks pre).length + j) r
+      ∧ At o s ((itemsToks pre).length + nD + (itemsToks post).length) s' := by
+  obtain ⟨s1, h1, h2, ha2⟩ := items_structure_at o hv pre seen _ s (fuel + post.length + 1) acceptAll w fs ls isBlock hcif hpre hseen
+    (by omega) hpreTerm hF
+  obtain ⟨s2, r, h3, hr, h4, hrep, ha4⟩ := hstep s1 { w with cif := put (.mk code fs (denoteItems o.dia o.normKey pre ls)) } (fuel + post.length)
+    rfl (by omega) h2
+  obtain ⟨s3, h5, h6, ha6⟩ := items_structure_at o hv post seen2 rest s2 fuel acceptAll
+    { log := r :: w.log, cif := put (.mk code fs (recover (denoteItems o.dia o.normKey pre ls))) } fs _ isBlock rfl hpost hseen2
+    (by omega) hrest h4
+  exact ⟨s3, r, by rw [h1, h3, h5], hr, h6, RepAt.shift ha2 hrep, (ha2.trans ha4).trans ha6⟩
+
 /-! ### unexpected value: a value where a data name, keyword or header is expected — it is parsed and ignored -/
 
-theorem unexpected_value_step (o : Opts) {path : Path} (v : Val) (next : List TokSpec) (s : PS) (fuel : Nat) (w : W) (isBlock : Bool)
+theorem unexpected_value_step_at (o : Opts) {path : Path} (v : Val) (next : List TokSpec) (s : PS) (fuel : Nat) (w : W) (isBlock : Bool)
     (hwv : wfVal o v = true) (hfuel : szVal v ≤ fuel) (hF : Feeds o s (valToks v ++ next)) :
     ∃ s' r, elemsLoop o (fuel + 1) s (some path) isBlock acceptAll w
         = elemsLoop o fuel s' (some path) isBlock acceptAll { w with log := r :: w.log }
-      ∧ r.code = CIF_UNEXPECTED_VALUE ∧ Feeds o s' next := by
+      ∧ r.code = CIF_UNEXPECTED_VALUE ∧ Feeds o s' next ∧ RepAt o s 0 r ∧ At o s (valToks v).length s' := by
   obtain ⟨ty, tx, ts, hvt, hstart, hkey⟩ := valToks_head v
   have hF' := hF
   rw [hvt, List.cons_append] at hF'
@@ -137,15 +245,25 @@ theorem unexpected_value_step (o : Opts) {path : Path} (v : Val) (next : List To
   have hpend : Feeds o s1 (valToks v ++ next) := by
     rw [hvt, List.cons_append, ← hty, ← htx]; exact Feeds.pending ht hr
   let r0 : Report := ⟨CIF_UNEXPECTED_VALUE, s1.scan.line, 1 + s1.scan.col - t.text.length⟩
-  obtain ⟨s2, h1, h2⟩ := value_structure o v next s1 fuel acceptAll { w with log := r0 :: w.log } hwv hfuel hpend
+  have a1 : At o s 0 s1 := (At.refl o s).peek hn ht
+  obtain ⟨s2, h1, h2, ha2⟩ := value_structure_at o v next s1 fuel acceptAll { w with log := r0 :: w.log } hwv hfuel hpend
   have hn1 := nextTok_pending o s1 t ht
   have hitem : parseItem o fuel s1 (some path) none acceptAll { w with log := r0 :: w.log } = .ok s2 { w with log := r0 :: w.log } := by
     unfold parseItem
     simp only [bind_eq, pure_eq, P.bind, P.pure, hn1, hty, hkey, hstart, if_true, Bool.false_eq_true, if_false, h1]
-  refine ⟨s2, r0, ?_, rfl, h2⟩
+  refine ⟨s2, r0, ?_, rfl, h2, ⟨s1, a1, rfl⟩, (a1.trans ha2).cast (by omega)⟩
   conv => lhs; rw [elemsLoop]
   cases ty <;> simp [isValueStart] at hstart <;>
     simp only [bind_eq, pure_eq, P.bind, P.pure, hn, hty, report_accept, hitem, r0]
+
+theorem unexpected_value_step (o : Opts) {path : Path} (v : Val) (next : List TokSpec) (s : PS) (fuel : Nat) (w : W) (isBlock : Bool)
+    (hwv : wfVal o v = true) (hfuel : szVal v ≤ fuel) (hF : Feeds o s (valToks v ++ next)) :
+    ∃ s' r, elemsLoop o (fuel + 1) s (some path) isBlock acceptAll w
+        = elemsLoop o fuel s' (some path) isBlock acceptAll { w with log := r :: w.log }
+      ∧ r.code = CIF_UNEXPECTED_VALUE ∧ Feeds o s' next := by
+  obtain ⟨s', r, h1, h2, h3, _, _⟩ := unexpected_value_step_at o (path := path) v next s fuel w isBlock hwv hfuel hF
+  exact ⟨s', r, h1, h2, h3⟩
+
 
 /-! ### duplicate data name: the item is parsed and dropped -/
 
@@ -157,15 +275,16 @@ theorem itemExists_true (o : Opts) {path : Path} {put : Container → Cif} {code
   simp only [hvalid, Bool.not_true, Bool.false_eq_true, if_false, bind_eq, pure_eq, P.bind, P.pure, getCif, hcif, hv.get,
     (hasItem_iff o code fs ls _).mpr hdup]
 
-theorem dup_name_step (o : Opts) {path : Path} {put : Container → Cif} {code : Str} (hv : View o path put code)
+theorem dup_name_step_at (o : Opts) {path : Path} {put : Container → Cif} {code : Str} (hv : View o path put code)
     (n : Str) (v : Val) (next : List TokSpec) (s : PS) (fuel : Nat) (w : W) (fs : List Container) (ls : List Loop) (isBlock : Bool)
     (hcif : w.cif = put (.mk code fs ls)) (hname : wfName n = true) (hdup : o.norm n ∈ normNames o ls)
     (hwv : wfVal o v = true) (hfuel : szVal v ≤ fuel) (hF : Feeds o s ((.name, n) :: (valToks v ++ next))) :
     ∃ s' r, elemsLoop o (fuel + 1) s (some path) isBlock acceptAll w
         = elemsLoop o fuel s' (some path) isBlock acceptAll { log := r :: w.log, cif := put (.mk code fs ls) }
-      ∧ r.code = CIF_DUP_ITEMNAME ∧ Feeds o s' next := by
+      ∧ r.code = CIF_DUP_ITEMNAME ∧ Feeds o s' next ∧ RepAt o s 1 r ∧ At o s (1 + (valToks v).length) s' := by
   simp only [wfName, Bool.and_eq_true] at hname
-  obtain ⟨t, s1, hty, htx, hn, _, hr⟩ := hF.inv
+  obtain ⟨t, s1, hty, htx, hn, ht, hr⟩ := hF.inv
+  have a1 : At o s 1 (consume s1) := (At.refl o s).step hn ht
   obtain ⟨ty2, tx2, ts2, hvt, hstart, hkey⟩ := valToks_head v
   have hr' := hr
   rw [hvt, List.cons_append] at hr'
@@ -173,20 +292,31 @@ theorem dup_name_step (o : Opts) {path : Path} {put : Container → Cif} {code :
   have hpend : Feeds o s2 (valToks v ++ next) := by
     rw [hvt, List.cons_append, ← hty2, ← htx2]; exact Feeds.pending ht2 hr2
   let r0 : Report := ⟨CIF_DUP_ITEMNAME, (consume s1).scan.line, (consume s1).scan.col⟩
-  obtain ⟨s3, h1, h2⟩ := value_structure o v next s2 fuel acceptAll { w with log := r0 :: w.log } hwv hfuel hpend
+  obtain ⟨s3, h1, h2, ha2⟩ := value_structure_at o v next s2 fuel acceptAll { w with log := r0 :: w.log } hwv hfuel hpend
   have hitem : parseItem o fuel (consume s1) (some path) none acceptAll { w with log := r0 :: w.log } = .ok s3 { w with log := r0 :: w.log } := by
     unfold parseItem
     simp only [bind_eq, pure_eq, P.bind, P.pure, hn2, hty2, hkey, hstart, if_true, Bool.false_eq_true, if_false, h1]
-  refine ⟨s3, r0, ?_, rfl, h2⟩
+  refine ⟨s3, r0, ?_, rfl, h2, ⟨consume s1, a1, rfl⟩, ((a1.peek hn2 ht2).trans ha2).cast (by omega)⟩
   rw [← hcif]
   conv => lhs; rw [elemsLoop]
   simp only [bind_eq, pure_eq, P.bind, P.pure, hn, hty, htx, cstr_noNul hname.2,
     itemExists_true o hv n fs ls acceptAll w hcif hname.1 hdup, if_true, report_accept, hitem, r0]
 
+theorem dup_name_step (o : Opts) {path : Path} {put : Container → Cif} {code : Str} (hv : View o path put code)
+    (n : Str) (v : Val) (next : List TokSpec) (s : PS) (fuel : Nat) (w : W) (fs : List Container) (ls : List Loop) (isBlock : Bool)
+    (hcif : w.cif = put (.mk code fs ls)) (hname : wfName n = true) (hdup : o.norm n ∈ normNames o ls)
+    (hwv : wfVal o v = true) (hfuel : szVal v ≤ fuel) (hF : Feeds o s ((.name, n) :: (valToks v ++ next))) :
+    ∃ s' r, elemsLoop o (fuel + 1) s (some path) isBlock acceptAll w
+        = elemsLoop o fuel s' (some path) isBlock acceptAll { log := r :: w.log, cif := put (.mk code fs ls) }
+      ∧ r.code = CIF_DUP_ITEMNAME ∧ Feeds o s' next := by
+  obtain ⟨s', r, h1, h2, h3, _, _⟩ := dup_name_step_at o hv n v next s fuel w fs ls isBlock hcif hname hdup hwv hfuel hF
+  exact ⟨s', r, h1, h2, h3⟩
+
+
 
 /-! ### empty loop: a loop header that is not followed by any value — the (packet-less) loop is accepted -/
 
-theorem empty_loop_step (o : Opts) {path : Path} {put : Container → Cif} {code : Str} (hv : View o path put code)
+theorem empty_loop_step_at (o : Opts) {path : Path} {put : Container → Cif} {code : Str} (hv : View o path put code)
     (ns : List Str) (ty : TokType) (tx : Str) (ts : List TokSpec) (s : PS) (fuel : Nat) (w : W) (fs : List Container) (ls : List Loop)
     (isBlock : Bool) (hcif : w.cif = put (.mk code fs ls)) (hns : ns ≠ []) (hwf : ∀ n ∈ ns, wfName n = true)
     (hfresh : ∀ n ∈ ns, o.norm n ∉ normNames o ls) (hnd : (ns.map o.norm).Nodup) (hfuel : ns.length + 2 ≤ fuel)
@@ -194,12 +324,13 @@ theorem empty_loop_step (o : Opts) {path : Path} {put : Container → Cif} {code
     (hF : Feeds o s ((.loopKw, []) :: (ns.map (fun n => (TokType.name, n)) ++ (ty, tx) :: ts))) :
     ∃ s' r, elemsLoop o (fuel + 1) s (some path) isBlock acceptAll w
         = elemsLoop o fuel s' (some path) isBlock acceptAll { log := r :: w.log, cif := put (.mk code fs (ls ++ [mkLoop ns []])) }
-      ∧ r.code = CIF_EMPTY_LOOP ∧ Feeds o s' ((ty, tx) :: ts) := by
-  obtain ⟨t, s1, hty, _, hn, _, hr⟩ := hF.inv
-  obtain ⟨s2, h1, h2⟩ := header_structure o hv fs ls ns [] ((ty, tx) :: ts) (consume s1) fuel acceptAll w hcif hwf hfresh
+      ∧ r.code = CIF_EMPTY_LOOP ∧ Feeds o s' ((ty, tx) :: ts) ∧ RepAt o s (1 + ns.length) r ∧ At o s (1 + ns.length) s' := by
+  obtain ⟨t, s1, hty, _, hn, ht, hr⟩ := hF.inv
+  obtain ⟨s2, h1, h2, ha2⟩ := header_structure_at o hv fs ls ns [] ((ty, tx) :: ts) (consume s1) fuel acceptAll w hcif hwf hfresh
     (by simpa using hnd) (by omega) ⟨ty, tx, ts, rfl, hnn⟩ hr
   simp only [List.nil_append, List.map_nil] at h1
   obtain ⟨t3, s3, hty3, htx3, hn3, ht3, hr3⟩ := h2.inv
+  have a3 : At o s (1 + ns.length) s3 := ((((At.refl o s).step hn ht).trans ha2).peek hn3 ht3).cast (by omega)
   obtain ⟨g, hg⟩ : ∃ g, fuel = g + 1 := ⟨fuel - 1, by omega⟩
   simp only [isTerminator, Bool.not_eq_true', Bool.or_eq_false_iff, beq_eq_false_iff_ne, ne_eq] at hterm
   have hvalid : ns.any (fun n => !isValidName true n) = false := by
@@ -221,7 +352,7 @@ theorem empty_loop_step (o : Opts) {path : Path} {put : Container → Cif} {code
     | nil => exact absurd rfl hns
     | cons a r => rfl
   refine ⟨s3, ⟨CIF_EMPTY_LOOP, s3.scan.line, s3.scan.col - t3.text.length⟩, ?_, rfl,
-    by rw [← hty3, ← htx3]; exact Feeds.pending ht3 hr3⟩
+    by rw [← hty3, ← htx3]; exact Feeds.pending ht3 hr3, ⟨s3, a3, rfl⟩, a3⟩
   conv => lhs; rw [elemsLoop]
   simp only [bind_eq, pure_eq, P.bind, P.pure, hn, hty]
   unfold parseLoop
@@ -230,6 +361,19 @@ theorem empty_loop_step (o : Opts) {path : Path} {put : Container → Cif} {code
     Container.loops]
   conv => lhs; rw [hg, packetsLoop]
   simp [bind_eq, pure_eq, P.bind, P.pure, hn3, hty3, hterm.1.1.1, hterm.1.1.2, hterm.1.2, hterm.2, report_accept, mkLoop, hg]
+
+theorem empty_loop_step (o : Opts) {path : Path} {put : Container → Cif} {code : Str} (hv : View o path put code)
+    (ns : List Str) (ty : TokType) (tx : Str) (ts : List TokSpec) (s : PS) (fuel : Nat) (w : W) (fs : List Container) (ls : List Loop)
+    (isBlock : Bool) (hcif : w.cif = put (.mk code fs ls)) (hns : ns ≠ []) (hwf : ∀ n ∈ ns, wfName n = true)
+    (hfresh : ∀ n ∈ ns, o.norm n ∉ normNames o ls) (hnd : (ns.map o.norm).Nodup) (hfuel : ns.length + 2 ≤ fuel)
+    (hterm : isTerminator ty = true) (hnn : ty ≠ .name)
+    (hF : Feeds o s ((.loopKw, []) :: (ns.map (fun n => (TokType.name, n)) ++ (ty, tx) :: ts))) :
+    ∃ s' r, elemsLoop o (fuel + 1) s (some path) isBlock acceptAll w
+        = elemsLoop o fuel s' (some path) isBlock acceptAll { log := r :: w.log, cif := put (.mk code fs (ls ++ [mkLoop ns []])) }
+      ∧ r.code = CIF_EMPTY_LOOP ∧ Feeds o s' ((ty, tx) :: ts) := by
+  obtain ⟨s', r, h1, h2, h3, _, _⟩ := empty_loop_step_at o hv ns ty tx ts s fuel w fs ls isBlock hcif hns hwf hfresh hnd hfuel hterm hnn hF
+  exact ⟨s', r, h1, h2, h3⟩
+
 
 
 /-! ### the classes, universally over the surrounding runs -/
@@ -257,6 +401,30 @@ theorem unexpected_value_run (o : Opts) {path : Path} {put : Container → Cif} 
     hfuel (by intro h; rw [hnoloop] at h; cases h) hrest hF
   simpa [denoteItems_append] using this
 
+theorem unexpected_value_run_at (o : Opts) {path : Path} {put : Container → Cif} {code : Str} (hv : View o path put code)
+    (pre post : List Item) (v : Val) (seen seen2 : List Str) (rest : List TokSpec) (s : PS) (fuel : Nat) (w : W)
+    (fs : List Container) (ls : List Loop) (isBlock : Bool) (hcif : w.cif = put (.mk code fs ls))
+    (hpre : wfItems o pre seen = true) (hseen : ∀ k ∈ normNames o ls, k ∈ seen) (hnoloop : lastIsLoop pre = false)
+    (hwv : wfVal o v = true) (hpost : wfItems o post seen2 = true)
+    (hseen2 : ∀ k ∈ normNames o (denoteItems o.dia o.normKey pre ls), k ∈ seen2)
+    (hfuel : szItems pre + szItems post + szVal v + 1 ≤ fuel)
+    (hrest : lastIsLoop post = true → ∃ ty tx ts, rest = (ty, tx) :: ts ∧ isTerminator ty = true)
+    (hF : Feeds o s (itemsToks pre ++ (valToks v ++ (itemsToks post ++ rest)))) :
+    ∃ s' r, elemsLoop o (fuel + post.length + 1 + pre.length) s (some path) isBlock acceptAll w
+        = elemsLoop o fuel s' (some path) isBlock acceptAll
+            { log := r :: w.log, cif := put (.mk code fs (denoteItems o.dia o.normKey (pre ++ post) ls)) }
+      ∧ r.code = CIF_UNEXPECTED_VALUE ∧ Feeds o s' rest ∧ RepAt o s ((itemsToks pre).length + 0) r
+      ∧ At o s ((itemsToks pre).length + (valToks v).length + (itemsToks post).length) s' := by
+  have := defect_run_at o hv pre post (valToks v) id CIF_UNEXPECTED_VALUE (szVal v) 0 (valToks v).length seen seen2 rest s fuel w fs ls isBlock hcif hpre hseen
+    hpost hseen2
+    (by
+      intro s1 w1 f hc hf hF1
+      obtain ⟨s2, r, h1, h2, h3, h4, h5⟩ := unexpected_value_step_at o (path := path) v _ s1 f w1 isBlock hwv hf hF1
+      refine ⟨s2, r, ?_, h2, h3, h4, h5⟩
+      rw [h1]; simp only [id]; rw [← hc])
+    hfuel (by intro h; rw [hnoloop] at h; cases h) hrest hF
+  simpa [denoteItems_append] using this
+
 theorem dup_name_run (o : Opts) {path : Path} {put : Container → Cif} {code : Str} (hv : View o path put code)
     (pre post : List Item) (n : Str) (v : Val) (seen seen2 : List Str) (rest : List TokSpec) (s : PS) (fuel : Nat) (w : W)
     (fs : List Container) (ls : List Loop) (isBlock : Bool) (hcif : w.cif = put (.mk code fs ls))
@@ -277,6 +445,30 @@ theorem dup_name_run (o : Opts) {path : Path} {put : Container → Cif} {code : 
       intro s1 w1 f hc hf hF1
       simp only [List.cons_append, List.append_assoc] at hF1
       exact dup_name_step o hv n v _ s1 f w1 fs _ isBlock hc hname hdup hwv hf hF1)
+    hfuel (fun _ => ⟨_, _, _, rfl, rfl⟩) hrest hF
+  simpa [denoteItems_append] using this
+
+theorem dup_name_run_at (o : Opts) {path : Path} {put : Container → Cif} {code : Str} (hv : View o path put code)
+    (pre post : List Item) (n : Str) (v : Val) (seen seen2 : List Str) (rest : List TokSpec) (s : PS) (fuel : Nat) (w : W)
+    (fs : List Container) (ls : List Loop) (isBlock : Bool) (hcif : w.cif = put (.mk code fs ls))
+    (hpre : wfItems o pre seen = true) (hseen : ∀ k ∈ normNames o ls, k ∈ seen)
+    (hname : wfName n = true) (hdup : o.norm n ∈ normNames o (denoteItems o.dia o.normKey pre ls))
+    (hwv : wfVal o v = true) (hpost : wfItems o post seen2 = true)
+    (hseen2 : ∀ k ∈ normNames o (denoteItems o.dia o.normKey pre ls), k ∈ seen2)
+    (hfuel : szItems pre + szItems post + szVal v + 1 ≤ fuel)
+    (hrest : lastIsLoop post = true → ∃ ty tx ts, rest = (ty, tx) :: ts ∧ isTerminator ty = true)
+    (hF : Feeds o s (itemsToks pre ++ (((.name, n) :: valToks v) ++ (itemsToks post ++ rest)))) :
+    ∃ s' r, elemsLoop o (fuel + post.length + 1 + pre.length) s (some path) isBlock acceptAll w
+        = elemsLoop o fuel s' (some path) isBlock acceptAll
+            { log := r :: w.log, cif := put (.mk code fs (denoteItems o.dia o.normKey (pre ++ post) ls)) }
+      ∧ r.code = CIF_DUP_ITEMNAME ∧ Feeds o s' rest ∧ RepAt o s ((itemsToks pre).length + 1) r
+      ∧ At o s ((itemsToks pre).length + (1 + (valToks v).length) + (itemsToks post).length) s' := by
+  have := defect_run_at o hv pre post ((.name, n) :: valToks v) id CIF_DUP_ITEMNAME (szVal v) 1 (1 + (valToks v).length) seen seen2 rest s fuel w fs ls isBlock hcif hpre
+    hseen hpost hseen2
+    (by
+      intro s1 w1 f hc hf hF1
+      simp only [List.cons_append, List.append_assoc] at hF1
+      exact dup_name_step_at o hv n v _ s1 f w1 fs _ isBlock hc hname hdup hwv hf hF1)
     hfuel (fun _ => ⟨_, _, _, rfl, rfl⟩) hrest hF
   simpa [denoteItems_append] using this
 
@@ -305,6 +497,34 @@ theorem empty_loop_run (o : Opts) {path : Path} {put : Container → Cif} {code 
       rw [hnx] at hF1 ⊢
       simp only [List.cons_append, List.append_assoc] at hF1
       exact empty_loop_step o hv ns ty tx ts s1 f w1 fs _ isBlock hc hns hwf hfresh hnd hf hterm hnn hF1)
+    hfuel (fun _ => ⟨_, _, _, rfl, rfl⟩) hrest hF
+
+theorem empty_loop_run_at (o : Opts) {path : Path} {put : Container → Cif} {code : Str} (hv : View o path put code)
+    (pre post : List Item) (ns : List Str) (seen seen2 : List Str) (rest : List TokSpec) (s : PS) (fuel : Nat) (w : W)
+    (fs : List Container) (ls : List Loop) (isBlock : Bool) (hcif : w.cif = put (.mk code fs ls))
+    (hpre : wfItems o pre seen = true) (hseen : ∀ k ∈ normNames o ls, k ∈ seen)
+    (hns : ns ≠ []) (hwf : ∀ n ∈ ns, wfName n = true)
+    (hfresh : ∀ n ∈ ns, o.norm n ∉ normNames o (denoteItems o.dia o.normKey pre ls)) (hnd : (ns.map o.norm).Nodup)
+    (hpost : wfItems o post seen2 = true)
+    (hseen2 : ∀ k ∈ normNames o (denoteItems o.dia o.normKey pre ls ++ [mkLoop ns []]), k ∈ seen2)
+    (hfuel : szItems pre + szItems post + (ns.length + 2) + 1 ≤ fuel)
+    (hnext : ∃ ty tx ts, itemsToks post ++ rest = (ty, tx) :: ts ∧ isTerminator ty = true ∧ ty ≠ .name)
+    (hrest : lastIsLoop post = true → ∃ ty tx ts, rest = (ty, tx) :: ts ∧ isTerminator ty = true)
+    (hF : Feeds o s (itemsToks pre ++ (((.loopKw, []) :: ns.map (fun n => (TokType.name, n))) ++ (itemsToks post ++ rest)))) :
+    ∃ s' r, elemsLoop o (fuel + post.length + 1 + pre.length) s (some path) isBlock acceptAll w
+        = elemsLoop o fuel s' (some path) isBlock acceptAll
+            { log := r :: w.log,
+              cif := put (.mk code fs (denoteItems o.dia o.normKey post (denoteItems o.dia o.normKey pre ls ++ [mkLoop ns []]))) }
+      ∧ r.code = CIF_EMPTY_LOOP ∧ Feeds o s' rest ∧ RepAt o s ((itemsToks pre).length + (1 + ns.length)) r
+      ∧ At o s ((itemsToks pre).length + (1 + ns.length) + (itemsToks post).length) s' := by
+  obtain ⟨ty, tx, ts, hnx, hterm, hnn⟩ := hnext
+  exact defect_run_at o hv pre post ((.loopKw, []) :: ns.map (fun n => (TokType.name, n))) (fun l => l ++ [mkLoop ns []]) CIF_EMPTY_LOOP
+    (ns.length + 2) (1 + ns.length) (1 + ns.length) seen seen2 rest s fuel w fs ls isBlock hcif hpre hseen hpost hseen2
+    (by
+      intro s1 w1 f hc hf hF1
+      rw [hnx] at hF1 ⊢
+      simp only [List.cons_append, List.append_assoc] at hF1
+      exact empty_loop_step_at o hv ns ty tx ts s1 f w1 fs _ isBlock hc hns hwf hfresh hnd hf hterm hnn hF1)
     hfuel (fun _ => ⟨_, _, _, rfl, rfl⟩) hrest hF
 
 
@@ -346,6 +566,54 @@ theorem no_block_header_step (o : Opts) (hstore : o.store = true) (hmfd : o.maxF
   obtain ⟨ty3, tx3, ts3, rfl, hfol⟩ := hrest
   obtain ⟨t3, s3, hty3, htx3, hn3, ht3, hr3⟩ := h2.inv
   refine ⟨s3, r0, ?_, by rw [hr0], by rw [← hty3, ← htx3]; exact Feeds.pending ht3 hr3⟩
+  have hpacked : allPacked (denoteElems o.dia o.normKey (e :: es) [] []).2 :=
+    allPacked_denoteElems o (e :: es) [] [] [] [] hwb (by intro l hl; cases hl)
+  have hv := View.block o w.cif [] hnew
+  have hany : w.cif.any (codeIs o.norm (o.norm [])) = false := by
+    rw [List.any_eq_false]; intro c hc; simp [hnew c hc]
+  have hpark : nextTok o s1 acceptAll { log := r0 :: w.log, cif := w.cif ++ [.mk [] [] []] } = .ok (t, s1) _ :=
+    nextTok_pending o s1 t ht _ _
+  conv => lhs; rw [blocksLoop]
+  have hbody : parseContainer o fuel s1 (some [o.norm []]) true acceptAll { log := r0 :: w.log, cif := w.cif ++ [.mk [] [] []] }
+      = .ok s3 { log := r0 :: w.log, cif := w.cif ++ [denoteBlock o.dia o.normKey { code := [], body := e :: es }] } := by
+    rw [hX, parseContainer]
+    simp only [bind_eq, pure_eq, P.bind, P.pure, h1]
+    rw [elemsLoop]
+    rcases hfol with h | h <;>
+      simp only [bind_eq, pure_eq, P.bind, P.pure, hn3, hty3, h, if_true, getCif, setCif, hv.upd, pruneC_packed _ _ _ hpacked,
+        denoteBlock]
+  rcases hty0 with h | h | h <;>
+    simp only [bind_eq, pure_eq, P.bind, P.pure, hn, hty, h, report_accept, hstore, if_true, getCif, setCif, hany,
+      Bool.false_eq_true, if_false, ← hr0, hbody]
+
+theorem no_block_header_step_at (o : Opts) (hstore : o.store = true) (hmfd : o.maxFrameDepth ≠ 0) (e : Elem) (es : List Elem)
+    (rest : List TokSpec) (s : PS) (fuel : Nat) (w : W)
+    (hnew : ∀ c ∈ w.cif, codeIs o.norm (o.norm []) c = false) (hwb : wfElems o (e :: es) [] [] = true)
+    (hfuel : szElems (e :: es) + (e :: es).length + 3 ≤ fuel) (hrest : blockFollow rest)
+    (hF : Feeds o s (elemsToks (e :: es) ++ rest)) :
+    ∃ s' r, blocksLoop o (fuel + 1) s acceptAll w
+        = blocksLoop o fuel s' acceptAll { log := r :: w.log, cif := w.cif ++ [denoteBlock o.dia o.normKey { code := [], body := e :: es }] }
+      ∧ r.code = CIF_NO_BLOCK_HEADER ∧ Feeds o s' rest ∧ RepAt o s 0 r ∧ At o s (elemsToks (e :: es)).length s' := by
+  obtain ⟨ty, tx, ts, hhead, hty0⟩ := elemToks_head_ty e
+  have hF' := hF
+  simp only [elemsToks, List.append_assoc] at hF'
+  rw [hhead, List.cons_append] at hF'
+  obtain ⟨t, s1, hty, htx, hn, ht, hr⟩ := hF'.inv
+  have hpend : Feeds o s1 (elemsToks (e :: es) ++ rest) := by
+    simp only [elemsToks, List.append_assoc]
+    rw [hhead, List.cons_append, ← hty, ← htx]; exact Feeds.pending ht hr
+  obtain ⟨X, hX⟩ : ∃ X, fuel = X + 1 := ⟨fuel - 1, by omega⟩
+  obtain ⟨g, hg⟩ : ∃ g, X = (g + 1) + (e :: es).length := ⟨X - (e :: es).length - 1, by omega⟩
+  obtain ⟨r0, hr0⟩ : ∃ r0 : Report, r0 = ⟨CIF_NO_BLOCK_HEADER, s1.scan.line, s1.scan.col - t.text.length⟩ := ⟨_, rfl⟩
+  have a1 : At o s 0 s1 := (At.refl o s).peek hn ht
+  obtain ⟨s2, h1, h2, ha2⟩ := elems_structure_at o w.cif [] hnew hmfd (e :: es) [] [] rest s1 (g + 1) acceptAll
+    { log := r0 :: w.log, cif := w.cif ++ [.mk [] [] []] } [] [] rfl hwb (by intro k hk; simp [normNames] at hk) (by intro c hc; cases hc)
+    (by omega) (blockFollow_term hrest) hpend
+  rw [← hg] at h1
+  obtain ⟨ty3, tx3, ts3, rfl, hfol⟩ := hrest
+  obtain ⟨t3, s3, hty3, htx3, hn3, ht3, hr3⟩ := h2.inv
+  refine ⟨s3, r0, ?_, by rw [hr0], by rw [← hty3, ← htx3]; exact Feeds.pending ht3 hr3, ⟨s1, a1, by rw [hr0]⟩,
+    ((a1.trans ha2).peek hn3 ht3).cast (by omega)⟩
   have hpacked : allPacked (denoteElems o.dia o.normKey (e :: es) [] []).2 :=
     allPacked_denoteElems o (e :: es) [] [] [] [] hwb (by intro l hl; cases hl)
   have hv := View.block o w.cif [] hnew
@@ -425,6 +693,44 @@ theorem header_structureG (o : Opts) {path : Path} {put : Container → Cif} {co
       findHeaderName_noneG o slots n hw.1 hdist, h1]
     simp
 
+theorem header_structureG_at (o : Opts) {path : Path} {put : Container → Cif} {code : Str} (hv : View o path put code)
+    (fs : List Container) (ls : List Loop) : ∀ (ns : List Str) (slots : List (Option Str)) (rest : List TokSpec) (s : PS) (fuel : Nat)
+      (pol : Policy) (w : W),
+      w.cif = put (.mk code fs ls) → (∀ n ∈ ns, wfName n = true) → (∀ n ∈ ns, o.norm n ∉ normNames o ls) →
+      ((slots.filterMap id ++ ns).map o.norm).Nodup → ns.length + 1 ≤ fuel →
+      (∃ ty tx ts, rest = (ty, tx) :: ts ∧ ty ≠ .name) →
+      Feeds o s (ns.map (fun n => (TokType.name, n)) ++ rest) →
+      ∃ s', headerLoop o (some path) fuel s slots pol w = .ok (slots ++ ns.map some, s') w ∧ Lands o s ns.length s' rest
+  | [], slots, rest, s, fuel, pol, w, _, _, _, _, hfuel, hrest, hF => by
+    obtain ⟨f, rfl⟩ : ∃ f, fuel = f + 1 := ⟨fuel - 1, by omega⟩
+    obtain ⟨ty, tx, ts, rfl, hty⟩ := hrest
+    simp only [List.map_nil, List.nil_append] at hF
+    obtain ⟨t, s1, ht1, ht2, hn, ht, hr⟩ := hF.inv
+    refine ⟨s1, ?_, by rw [← ht1, ← ht2]; exact Feeds.pending ht hr, ((At.refl o s).peek hn ht).cast (by simp)⟩
+    rw [headerLoop]
+    simp only [bind_eq, pure_eq, P.bind, P.pure, hn, ht1, hty, if_false, List.append_nil, List.map_nil]
+  | n :: ns, slots, rest, s, fuel, pol, w, hcif, hwf, hfresh, hnd, hfuel, hrest, hF => by
+    obtain ⟨f, rfl⟩ : ∃ f, fuel = f + 1 := ⟨fuel - 1, by omega⟩
+    simp only [List.map_cons, List.cons_append] at hF
+    obtain ⟨t, s1, ht1, ht2, hn, ht, hr⟩ := hF.inv
+    have hw := hwf n (by simp)
+    simp only [wfName, Bool.and_eq_true] at hw
+    have hdist : ∀ m ∈ slots.filterMap id, o.norm m ≠ o.norm n := by
+      intro m hm heq
+      have h1 : ((slots.filterMap id ++ n :: ns).map o.norm) = (slots.filterMap id).map o.norm ++ o.norm n :: ns.map o.norm := by simp
+      rw [h1] at hnd
+      exact (List.nodup_append.mp hnd).2.2 (o.norm m) (List.mem_map.mpr ⟨m, hm, rfl⟩) (o.norm n) (by simp) heq
+    have hnd' : (((slots ++ [some n]).filterMap id ++ ns).map o.norm).Nodup := by
+      simpa [List.filterMap_append] using hnd
+    obtain ⟨s2, h1, h2, ha2⟩ := header_structureG_at o hv fs ls ns (slots ++ [some n]) rest (consume s1) f pol w hcif
+      (fun m hm => hwf m (by simp [hm])) (fun m hm => hfresh m (by simp [hm])) hnd' (by simp at hfuel; omega) hrest hr
+    refine ⟨s2, ?_, h2, (((At.refl o s).step hn ht).trans ha2).cast (by simp; omega)⟩
+    rw [headerLoop]
+    simp only [bind_eq, pure_eq, P.bind, P.pure, hn, ht1, ht2, if_true, cstr_noNul hw.2,
+      itemExists_false o hv n fs ls pol w hcif hw.1 (hfresh n (by simp)), Bool.false_eq_true, if_false,
+      findHeaderName_noneG o slots n hw.1 hdist, h1]
+    simp
+
 /-- a duplicate name in a loop header (it repeats — in any spelling — an item of the container or an earlier, retained header
     name): CIF_DUP_ITEMNAME, the slot is dropped -/
 theorem dup_header_name_step (o : Opts) {path : Path} {put : Container → Cif} {code : Str} (hv : View o path put code)
@@ -438,6 +744,35 @@ theorem dup_header_name_step (o : Opts) {path : Path} {put : Container → Cif} 
   simp only [wfName, Bool.and_eq_true] at hname
   obtain ⟨t, s1, ht1, ht2, hn, _, hr⟩ := hF.inv
   refine ⟨consume s1, ⟨CIF_DUP_ITEMNAME, s1.scan.line, s1.scan.col - t.text.length⟩, ?_, rfl, hr⟩
+  rw [headerLoop]
+  by_cases hin : o.norm n ∈ normNames o ls
+  · simp only [bind_eq, pure_eq, P.bind, P.pure, hn, ht1, ht2, if_true, cstr_noNul hname.2,
+      itemExists_true o hv n fs ls acceptAll w hcif hname.1 hin, report_accept]
+  · rcases hdup with h | ⟨m, hm, hmv, hmn⟩
+    · exact absurd h hin
+    · have hfind : findHeaderName o slots n = some false := by
+        unfold findHeaderName
+        have hmem : some m ∈ slots := by simpa [List.mem_filterMap] using hm
+        simp only [hname.1, Bool.not_true, Bool.false_eq_true, if_false]
+        split
+        · rfl
+        · rename_i h
+          exact absurd (List.any_eq_true.mpr ⟨some m, hmem, by simp [hmv, hmn]⟩) h
+      simp only [bind_eq, pure_eq, P.bind, P.pure, hn, ht1, ht2, if_true, cstr_noNul hname.2,
+        itemExists_false o hv n fs ls acceptAll w hcif hname.1 hin, Bool.false_eq_true, if_false, hfind, report_accept]
+
+theorem dup_header_name_step_at (o : Opts) {path : Path} {put : Container → Cif} {code : Str} (hv : View o path put code)
+    (fs : List Container) (ls : List Loop) (n : Str) (slots : List (Option Str)) (rest : List TokSpec) (s : PS) (fuel : Nat) (w : W)
+    (hcif : w.cif = put (.mk code fs ls)) (hname : wfName n = true)
+    (hdup : o.norm n ∈ normNames o ls ∨ ∃ m ∈ slots.filterMap id, isValidName true m = true ∧ o.norm m = o.norm n)
+    (hF : Feeds o s ((.name, n) :: rest)) :
+    ∃ s1 r, headerLoop o (some path) (fuel + 1) s slots acceptAll w
+        = headerLoop o (some path) fuel s1 (slots ++ [none]) acceptAll { w with log := r :: w.log }
+      ∧ r.code = CIF_DUP_ITEMNAME ∧ Feeds o s1 rest ∧ RepAt o s 0 r ∧ At o s 1 s1 := by
+  simp only [wfName, Bool.and_eq_true] at hname
+  obtain ⟨t, s1, ht1, ht2, hn, ht, hr⟩ := hF.inv
+  refine ⟨consume s1, ⟨CIF_DUP_ITEMNAME, s1.scan.line, s1.scan.col - t.text.length⟩, ?_, rfl, hr,
+    ⟨s1, (At.refl o s).peek hn ht, rfl⟩, (At.refl o s).step hn ht⟩
   rw [headerLoop]
   by_cases hin : o.norm n ∈ normNames o ls
   · simp only [bind_eq, pure_eq, P.bind, P.pure, hn, ht1, ht2, if_true, cstr_noNul hname.2,
@@ -560,6 +895,101 @@ theorem packetsG (o : Opts) {path : Path} {put : Container → Cif} {code : Str}
           cases x <;> simp [keepFrom, denoteVals, List.append_assoc]
 termination_by ps vs => (ps.length, vs.length)
 
+theorem packetsG_at (o : Opts) {path : Path} {put : Container → Cif} {code : Str} (hv : View o path put code)
+    (fs : List Container) (ls0 : List Loop) (slots : List (Option Str)) (names : List Str) (pol : Policy)
+    (tailP : List (List V)) (Good : PS → List Report → Prop) (nEnd : Nat) (rest rest' : List TokSpec) (K : Nat) (hK : 1 ≤ K)
+    (hend : ∀ (D : List (List V)) (w1 : W) (s1 : PS) (g : Nat), w1.cif = put (.mk code fs (ls0 ++ [mkLoop names D])) → K ≤ g →
+        Feeds o s1 rest →
+        ∃ s' lg, packetsLoop o (some path) slots g s1 { idx := 0, some := true, cur := [] } pol w1
+            = .ok s' { log := lg ++ w1.log, cif := put (.mk code fs (ls0 ++ [mkLoop names (D ++ tailP)])) } ∧ Good s1 lg ∧ Feeds o s' rest' ∧ At o s1 nEnd s') :
+    ∀ (ps : List (List Val)) (vs : List Val) (sl : List (Option Str)) (cur : List V) (done : List (List V)) (b : Bool) (s : PS)
+      (fuel : Nat) (w : W),
+      w.cif = put (.mk code fs (ls0 ++ [mkLoop names done])) → vs ≠ [] →
+      vs.length = sl.length → slots.drop (slots.length - sl.length) = sl → sl.length ≤ slots.length →
+      (∀ p ∈ ps, p.length = slots.length) → slots ≠ [] →
+      wfVals o vs = true → (∀ p ∈ ps, wfVals o p = true) → szVals vs + szPackets ps + K ≤ fuel →
+      Feeds o s (valsToks vs ++ (packetsToks ps ++ rest)) →
+      ∃ s' lg, packetsLoop o (some path) slots fuel s { idx := slots.length - sl.length, some := b, cur := cur } pol w
+          = .ok s' { log := lg ++ w.log, cif := put (.mk code fs (ls0 ++ [mkLoop names
+              (done ++ [cur ++ keepFrom sl (denoteVals o.dia o.normKey vs)]
+                ++ ps.map (fun p => keepFrom slots (denoteVals o.dia o.normKey p)) ++ tailP)])) }
+        ∧ (∃ sE, At o s ((valsToks vs).length + (packetsToks ps).length) sE ∧ Good sE lg) ∧ Feeds o s' rest'
+        ∧ At o s ((valsToks vs).length + (packetsToks ps).length + nEnd) s'
+  | ps, [], _, _, _, _, _, _, _, _, hne, _, _, _, _, _, _, _, _, _ => absurd rfl hne
+  | ps, _ :: _, [], _, _, _, _, _, _, _, _, hl, _, _, _, _, _, _, _, _ => by simp at hl
+  | ps, v :: vs, x :: sl, cur, done, b, s, fuel, w, hcif, _, hlen, hdrop, hle, hps, hns, hwv, hwps, hfuel, hF => by
+    simp only [szVals] at hfuel
+    have hp := szVal_pos v
+    obtain ⟨f, rfl⟩ : ∃ f, fuel = f + 1 := ⟨fuel - 1, by omega⟩
+    simp only [wfVals, Bool.and_eq_true] at hwv
+    obtain ⟨ty, tx, ts, hvt, hstart, hkey⟩ := valToks_head v
+    simp only [valsToks, List.append_assoc] at hF
+    have hF' := hF
+    rw [hvt, List.cons_append] at hF'
+    obtain ⟨t, s1, hty, htx, hn, ht, hr⟩ := hF'.inv
+    have hpend : Feeds o s1 (valToks v ++ (valsToks vs ++ (packetsToks ps ++ rest))) := by
+      rw [hvt, List.cons_append, ← hty, ← htx]; exact Feeds.pending ht hr
+    obtain ⟨s2, h1, h2, ha2⟩ := value_structure_at o v _ s1 f pol w hwv.1 (by omega) hpend
+    have a2 := ((At.refl o s).peek hn ht).trans ha2
+    have hslot := drop_getD slots _ x none sl hdrop
+    have hnext := drop_succ slots _ x sl hdrop
+    simp only [List.length_cons] at hle hlen hdrop hslot hnext ⊢
+    have hn0 : 0 < slots.length := by omega
+    rw [packetsLoop]
+    simp only [bind_eq, pure_eq, P.bind, P.pure, hn, hty, hkey, hstart, Bool.false_or, if_true, Bool.false_eq_true, if_false,
+      h1, hslot]
+    cases sl with
+    | cons x2 sl2 =>
+      cases vs with
+      | nil => simp at hlen
+      | cons v2 vs2 =>
+        simp only [List.length_cons] at hle hlen hnext
+        have hidx : slots.length - (sl2.length + 1 + 1) + 1 = slots.length - (sl2.length + 1) := by omega
+        have hmod : (slots.length - (sl2.length + 1 + 1) + 1) % slots.length = slots.length - (sl2.length + 1) := by
+          rw [hidx]; exact Nat.mod_eq_of_lt (by omega)
+        have hne0 : ¬ (slots.length - (sl2.length + 1) = 0) := by omega
+        simp only [List.length_cons, hmod, hne0, if_false]
+        rw [hidx] at hnext
+        obtain ⟨s3, lg, h3, ⟨sE, haE, hg⟩, h4, ha4⟩ := packetsG_at o hv fs ls0 slots names pol tailP Good nEnd rest rest' K hK hend ps (v2 :: vs2) (x2 :: sl2)
+          (if x.isSome then cur ++ [denoteVal o.dia o.normKey v] else cur) done b s2 f w hcif (by simp) (by simpa using hlen)
+          (by simpa using hnext) (by simp; omega) hps hns hwv.2 hwps (by omega) h2
+        simp only [List.length_cons] at h3
+        refine ⟨s3, lg, ?_, ⟨sE, (a2.trans haE).cast (by lenarith), hg⟩, h4, (a2.trans ha4).cast (by lenarith)⟩
+        rw [h3]
+        cases x <;> simp [keepFrom, denoteVals, List.append_assoc]
+    | nil =>
+      cases vs with
+      | cons v2 vs2 => simp at hlen
+      | nil =>
+        have hidx : slots.length - (0 + 1) + 1 = slots.length := by omega
+        have hmod : (slots.length - (0 + 1) + 1) % slots.length = 0 := by rw [hidx]; exact Nat.mod_self _
+        simp only [List.length_nil, hmod, if_true]
+        rw [P.bind_ok (addPacket_mk o hv fs ls0 names done _ pol w hcif)]
+        simp only [valsToks, List.nil_append] at h2
+        cases ps with
+        | nil =>
+          simp only [packetsToks, List.nil_append] at h2
+          obtain ⟨s3, lg, h3, hg, h4, ha4⟩ := hend (done ++ [if x.isSome then cur ++ [denoteVal o.dia o.normKey v] else cur])
+            { w with cif := put (.mk code fs (ls0 ++ [mkLoop names (done ++ [if x.isSome then cur ++ [denoteVal o.dia o.normKey v] else cur])])) }
+            s2 f rfl (by simp only [szPackets] at hfuel; omega) h2
+          refine ⟨s3, lg, ?_, ⟨s2, a2.cast (by lenarith), hg⟩, h4, (a2.trans ha4).cast (by lenarith)⟩
+          rw [h3]
+          cases x <;> simp [keepFrom, denoteVals, List.append_assoc]
+        | cons p ps2 =>
+          have hpl : p.length = slots.length := hps p (by simp)
+          simp only [packetsToks, List.append_assoc] at h2
+          simp only [szPackets] at hfuel
+          obtain ⟨s3, lg, h3, ⟨sE, haE, hg⟩, h4, ha4⟩ := packetsG_at o hv fs ls0 slots names pol tailP Good nEnd rest rest' K hK hend ps2 p slots []
+            (done ++ [if x.isSome then cur ++ [denoteVal o.dia o.normKey v] else cur]) true s2 f
+            { w with cif := put (.mk code fs (ls0 ++ [mkLoop names (done ++ [if x.isSome then cur ++ [denoteVal o.dia o.normKey v] else cur])])) }
+            rfl (by intro h; rw [h] at hpl; simp at hpl; exact hns (List.length_eq_zero_iff.mp hpl.symm)) hpl (by simp) (Nat.le_refl _) (fun q hq => hps q (by simp [hq])) hns (hwps p (by simp)) (fun q hq => hwps q (by simp [hq]))
+            (by omega) h2
+          simp only [Nat.sub_self] at h3
+          refine ⟨s3, lg, ?_, ⟨sE, (a2.trans haE).cast (by lenarith), hg⟩, h4, (a2.trans ha4).cast (by lenarith)⟩
+          rw [h3]
+          cases x <;> simp [keepFrom, denoteVals, List.append_assoc]
+termination_by ps vs => (ps.length, vs.length)
+
 
 /-- unknown values for the retained columns among `sl` -/
 def unkFill (sl : List (Option Str)) : List V := (sl.filter Option.isSome).map fun _ => V.unk
@@ -578,6 +1008,22 @@ theorem packets_end_plain (o : Opts) {path : Path} {put : Container → Cif} {co
   obtain ⟨t, s2, hty, htx, hn, ht, hr⟩ := hF.inv
   simp only [isTerminator, Bool.not_eq_true', Bool.or_eq_false_iff, beq_eq_false_iff_ne, ne_eq] at hterm
   refine ⟨s2, [], ?_, rfl, by rw [← hty, ← htx]; exact Feeds.pending ht hr⟩
+  rw [packetsLoop]
+  simp [bind_eq, pure_eq, P.bind, P.pure, hn, hty, hterm.1.1.1, hterm.1.1.2, hterm.1.2, hterm.2, ← hcif]
+
+theorem packets_end_plain_at (o : Opts) {path : Path} {put : Container → Cif} {code : Str} (fs : List Container) (ls0 : List Loop)
+    (slots : List (Option Str)) (names : List Str) (pol : Policy) (ty : TokType) (tx : Str) (ts : List TokSpec)
+    (hterm : isTerminator ty = true) :
+    ∀ (D : List (List V)) (w1 : W) (s1 : PS) (g : Nat), w1.cif = put (.mk code fs (ls0 ++ [mkLoop names D])) → 1 ≤ g →
+      Feeds o s1 ((ty, tx) :: ts) →
+      ∃ s' lg, packetsLoop o (some path) slots g s1 { idx := 0, some := true, cur := [] } pol w1
+          = .ok s' { log := lg ++ w1.log, cif := put (.mk code fs (ls0 ++ [mkLoop names (D ++ [])])) } ∧ lg = [] ∧
+        Feeds o s' ((ty, tx) :: ts) ∧ At o s1 0 s' := by
+  intro D w1 s1 g hcif hg hF
+  obtain ⟨f, rfl⟩ : ∃ f, g = f + 1 := ⟨g - 1, by omega⟩
+  obtain ⟨t, s2, hty, htx, hn, ht, hr⟩ := hF.inv
+  simp only [isTerminator, Bool.not_eq_true', Bool.or_eq_false_iff, beq_eq_false_iff_ne, ne_eq] at hterm
+  refine ⟨s2, [], ?_, rfl, by rw [← hty, ← htx]; exact Feeds.pending ht hr, (At.refl o s1).peek hn ht⟩
   rw [packetsLoop]
   simp [bind_eq, pure_eq, P.bind, P.pure, hn, hty, hterm.1.1.1, hterm.1.1.2, hterm.1.2, hterm.2, ← hcif]
 
@@ -635,6 +1081,67 @@ theorem partial_row (o : Opts) {path : Path} {put : Container → Cif} {code : S
       (if x.isSome then cur ++ [denoteVal o.dia o.normKey v] else cur) b s2 f w hcif (by omega) hnext (by omega) (fun _ => by omega)
       hwv.2 (by omega) h2
     refine ⟨s3, r, ?_, hr3, h4⟩
+    rw [packetsLoop]
+    simp only [bind_eq, pure_eq, P.bind, P.pure, hn, hty, hkey, hstart, Bool.false_or, if_true, Bool.false_eq_true, if_false,
+      h1, hslot, hmod, hne0, h3]
+    cases x <;> simp [keepFrom, denoteVals, List.append_assoc]
+
+theorem partial_row_at (o : Opts) {path : Path} {put : Container → Cif} {code : Str} (hv : View o path put code)
+    (fs : List Container) (ls0 : List Loop) (slots : List (Option Str)) (names : List Str) (ty : TokType) (tx : Str) (ts : List TokSpec)
+    (hterm : isTerminator ty = true) (D : List (List V)) :
+    ∀ (pv : List Val) (sl : List (Option Str)) (cur : List V) (b : Bool) (s : PS) (fuel : Nat) (w : W),
+      w.cif = put (.mk code fs (ls0 ++ [mkLoop names D])) → pv.length < sl.length →
+      slots.drop (slots.length - sl.length) = sl → sl.length ≤ slots.length → (pv = [] → sl.length < slots.length) →
+      wfVals o pv = true → szVals pv + 1 ≤ fuel → Feeds o s (valsToks pv ++ (ty, tx) :: ts) →
+      ∃ s' r, packetsLoop o (some path) slots fuel s { idx := slots.length - sl.length, some := b, cur := cur } acceptAll w
+          = .ok s' { log := [r] ++ w.log, cif := put (.mk code fs (ls0 ++ [mkLoop names
+              (D ++ [cur ++ keepFrom sl (denoteVals o.dia o.normKey pv) ++ unkFill (sl.drop pv.length)])])) }
+        ∧ r.code = CIF_PARTIAL_PACKET ∧ Feeds o s' ((ty, tx) :: ts) ∧ RepAt o s (valsToks pv).length r
+        ∧ At o s (valsToks pv).length s'
+  | [], sl, cur, b, s, fuel, w, hcif, _, hdrop, hle, hidx, _, hfuel, hF => by
+    obtain ⟨f, rfl⟩ : ∃ f, fuel = f + 1 := ⟨fuel - 1, by omega⟩
+    simp only [valsToks, List.nil_append] at hF
+    obtain ⟨t, s1, hty, htx, hn, ht, hr⟩ := hF.inv
+    simp only [isTerminator, Bool.not_eq_true', Bool.or_eq_false_iff, beq_eq_false_iff_ne, ne_eq] at hterm
+    have hi := hidx rfl
+    have hne : ¬ (slots.length - sl.length = 0) := by omega
+    have a1 : At o s (valsToks ([] : List Val)).length s1 := ((At.refl o s).peek hn ht).cast (by simp [valsToks])
+    refine ⟨s1, ⟨CIF_PARTIAL_PACKET, s1.scan.line, s1.scan.col - t.text.length⟩, ?_, rfl,
+      by rw [← hty, ← htx]; exact Feeds.pending ht hr, ⟨s1, a1, rfl⟩, a1⟩
+    rw [packetsLoop]
+    simp only [bind_eq, pure_eq, P.bind, P.pure, hn, hty, hterm.1.1.1, hterm.1.1.2, Bool.or_self, Bool.false_eq_true, if_false,
+      hterm.1.2, hterm.2, beq_iff_eq, hne, ne_eq, not_false_eq_true, if_true, report_accept, hdrop, decide_eq_true_eq, or_self]
+    rw [addPacket_mk o hv fs ls0 names D _ acceptAll
+      ⟨⟨CIF_PARTIAL_PACKET, s1.scan.line, s1.scan.col - t.text.length⟩ :: w.log, w.cif⟩ hcif]
+    simp [keepFrom, denoteVals, unkFill]
+  | v :: pv, [], _, _, _, _, _, _, hl, _, _, _, _, _, _ => by simp at hl
+  | v :: pv, x :: sl, cur, b, s, fuel, w, hcif, hlen, hdrop, hle, _, hwv, hfuel, hF => by
+    simp only [szVals] at hfuel
+    have hp := szVal_pos v
+    obtain ⟨f, rfl⟩ : ∃ f, fuel = f + 1 := ⟨fuel - 1, by omega⟩
+    simp only [wfVals, Bool.and_eq_true] at hwv
+    obtain ⟨vty, vtx, vts, hvt, hstart, hkey⟩ := valToks_head v
+    simp only [valsToks, List.append_assoc] at hF
+    have hF' := hF
+    rw [hvt, List.cons_append] at hF'
+    obtain ⟨t, s1, hty, htx, hn, ht, hr⟩ := hF'.inv
+    have hpend : Feeds o s1 (valToks v ++ (valsToks pv ++ (ty, tx) :: ts)) := by
+      rw [hvt, List.cons_append, ← hty, ← htx]; exact Feeds.pending ht hr
+    obtain ⟨s2, h1, h2, ha2⟩ := value_structure_at o v _ s1 f acceptAll w hwv.1 (by omega) hpend
+    have a2 := ((At.refl o s).peek hn ht).trans ha2
+    have hslot := drop_getD slots _ x none sl hdrop
+    have hnext := drop_succ slots _ x sl hdrop
+    simp only [List.length_cons] at hle hlen hdrop hslot hnext ⊢
+    have hidx : slots.length - (sl.length + 1) + 1 = slots.length - sl.length := by omega
+    have hsl : 0 < sl.length := by omega
+    have hmod : (slots.length - (sl.length + 1) + 1) % slots.length = slots.length - sl.length := by
+      rw [hidx]; exact Nat.mod_eq_of_lt (by omega)
+    have hne0 : ¬ (slots.length - sl.length = 0) := by omega
+    rw [hidx] at hnext
+    obtain ⟨s3, r, h3, hr3, h4, hrep, ha4⟩ := partial_row_at o hv fs ls0 slots names ty tx ts hterm D pv sl
+      (if x.isSome then cur ++ [denoteVal o.dia o.normKey v] else cur) b s2 f w hcif (by omega) hnext (by omega) (fun _ => by omega)
+      hwv.2 (by omega) h2
+    refine ⟨s3, r, ?_, hr3, h4, (RepAt.shift a2 hrep).cast (by lenarith), (a2.trans ha4).cast (by lenarith)⟩
     rw [packetsLoop]
     simp only [bind_eq, pure_eq, P.bind, P.pure, hn, hty, hkey, hstart, Bool.false_or, if_true, Bool.false_eq_true, if_false,
       h1, hslot, hmod, hne0, h3]
@@ -796,6 +1303,104 @@ theorem partial_packet_step (o : Opts) {path : Path} {put : Container → Cif} {
   simp only [bind_eq, pure_eq, P.bind, P.pure, hn, hty, hcreate, h3]
   simp [denoteItems, mkLoop, denoteVals_append, denoteVals_replicate_unk]
 
+theorem partial_packet_step_at (o : Opts) {path : Path} {put : Container → Cif} {code : Str} (hv : View o path put code)
+    (ns : List Str) (ps : List (List Val)) (pv : List Val) (ty : TokType) (tx : Str) (ts : List TokSpec) (s : PS) (fuel : Nat) (w : W)
+    (fs : List Container) (ls : List Loop) (isBlock : Bool) (hcif : w.cif = put (.mk code fs ls))
+    (hwf : ∀ n ∈ ns, wfName n = true) (hfresh : ∀ n ∈ ns, o.norm n ∉ normNames o ls) (hnd : (ns.map o.norm).Nodup)
+    (hlen : ∀ p ∈ ps, p.length = ns.length) (hwv : ∀ p ∈ ps, wfVals o p = true)
+    (hpv : pv ≠ []) (hpl : pv.length < ns.length) (hwpv : wfVals o pv = true)
+    (hfuel : ns.length + szPackets ps + szVals pv + 2 ≤ fuel) (hterm : isTerminator ty = true)
+    (hF : Feeds o s ((.loopKw, []) :: (ns.map (fun n => (TokType.name, n)) ++ (packetsToks ps ++ (valsToks pv ++ (ty, tx) :: ts))))) :
+    ∃ s' r, elemsLoop o (fuel + 1) s (some path) isBlock acceptAll w
+        = elemsLoop o fuel s' (some path) isBlock acceptAll
+            { log := r :: w.log, cif := put (.mk code fs (denoteItems o.dia o.normKey
+                [.loop ns (ps ++ [pv ++ List.replicate (ns.length - pv.length) Val.unk])] ls)) }
+      ∧ r.code = CIF_PARTIAL_PACKET ∧ Feeds o s' ((ty, tx) :: ts) ∧ RepAt o s (1 + ns.length + (packetsToks ps).length + (valsToks pv).length) r
+      ∧ At o s (1 + ns.length + (packetsToks ps).length + (valsToks pv).length) s' := by
+  obtain ⟨t, s1, hty, _, hn, ht, hr⟩ := hF.inv
+  have hns : ns ≠ [] := by intro h; rw [h] at hpl; simp at hpl
+  -- the token behind the header is the first token of a value
+  have hfirst : ∃ ty' tx' ts', packetsToks ps ++ (valsToks pv ++ (ty, tx) :: ts) = (ty', tx') :: ts' ∧ ty' ≠ .name := by
+    have hval : ∀ (v : Val) (tl : List TokSpec), ∃ ty' tx' ts', valToks v ++ tl = (ty', tx') :: ts' ∧ ty' ≠ .name := by
+      intro v tl
+      obtain ⟨a, b, c, h, hs, _⟩ := valToks_head v
+      exact ⟨a, b, c ++ tl, by simp [h], by intro e; rw [e] at hs; cases hs⟩
+    cases ps with
+    | nil =>
+      cases pv with
+      | nil => exact absurd rfl hpv
+      | cons v r => simpa [packetsToks, valsToks, List.append_assoc] using hval v _
+    | cons p r =>
+      have : p ≠ [] := by
+        intro h; have := hlen p (by simp); rw [h] at this; exact hns (List.length_eq_zero_iff.mp this.symm)
+      cases p with
+      | nil => exact absurd rfl this
+      | cons v r2 => simpa [packetsToks, valsToks, List.append_assoc] using hval v _
+  obtain ⟨s2, h1, h2, ha2⟩ := header_structure_at o hv fs ls ns [] _ (consume s1) fuel acceptAll w hcif hwf hfresh (by simpa using hnd)
+    (by omega) hfirst hr
+  have a2 := ((At.refl o s).step hn ht).trans ha2
+  simp only [List.nil_append, List.map_nil] at h1
+  have hfm : (ns.map some).filterMap id = ns := filterMap_map_some ns
+  have hcreate := parseLoop_create o hv fs ls (ns.map some) (consume s1) s2 fuel acceptAll w w h1 hcif (by rw [hfm]; exact hns)
+    (by rw [hfm]; intro n hn'; have := hwf n hn'; simp only [wfName, Bool.and_eq_true] at this; exact this.1)
+    (by rw [hfm]; exact hfresh) (by rw [hfm]; exact hnd)
+  rw [hfm] at hcreate
+  have hnl : (ns.map some).length = ns.length := by simp
+  -- the body
+  have hbody : ∃ s3 r, packetsLoop o (some path) (ns.map some) fuel s2 { idx := 0, some := false, cur := [] } acceptAll
+        { w with cif := put (.mk code fs (ls ++ [mkLoop ns []])) }
+      = .ok s3 { log := r :: w.log, cif := put (.mk code fs (ls ++ [mkLoop ns
+          (ps.map (denoteVals o.dia o.normKey) ++ [denoteVals o.dia o.normKey pv ++ List.replicate (ns.length - pv.length) V.unk])])) }
+      ∧ r.code = CIF_PARTIAL_PACKET ∧ Feeds o s3 ((ty, tx) :: ts) ∧ RepAt o s2 ((packetsToks ps).length + (valsToks pv).length) r ∧ At o s2 ((packetsToks ps).length + (valsToks pv).length) s3 := by
+    cases ps with
+    | nil =>
+      simp only [packetsToks, List.nil_append] at h2
+      obtain ⟨s3, r, h3, hr3, h4, hrep, ha4⟩ := partial_row_at o hv fs ls (ns.map some) ns ty tx ts hterm [] pv (ns.map some) [] false s2 fuel
+        { w with cif := put (.mk code fs (ls ++ [mkLoop ns []])) } rfl (by simpa using hpl) (by simp) (Nat.le_refl _)
+        (fun h => absurd h hpv) hwpv (by omega) h2
+      refine ⟨s3, r, ?_, hr3, h4, hrep.cast (by lenarith), ha4.cast (by lenarith)⟩
+      simp only [Nat.sub_self] at h3
+      rw [h3, keepFrom_map_some ns _ (by rw [denoteVals_length]; omega), unkFill_map_some]
+      simp
+    | cons p0 ps' =>
+      simp only [packetsToks, List.append_assoc] at h2
+      simp only [szPackets] at hfuel
+      obtain ⟨s3, lg, h3, ⟨sE, haE, r, hlg, hr3, hrepE⟩, h4, ha4⟩ := packetsG_at o hv fs ls (ns.map some) ns acceptAll
+        [denoteVals o.dia o.normKey pv ++ List.replicate (ns.length - pv.length) V.unk]
+        (fun sE lg => ∃ r, lg = [r] ∧ r.code = CIF_PARTIAL_PACKET ∧ RepAt o sE (valsToks pv).length r) (valsToks pv).length
+        (valsToks pv ++ (ty, tx) :: ts) ((ty, tx) :: ts) (szVals pv + 1) (by omega)
+        (by
+          intro D w1 s1' g hc hg hFe
+          obtain ⟨s4, r, h5, hr5, h6, hrep5, ha5⟩ := partial_row_at o hv fs ls (ns.map some) ns ty tx ts hterm D pv (ns.map some) [] true s1' g w1 hc
+            (by simpa using hpl) (by simp) (Nat.le_refl _) (fun h => absurd h hpv) hwpv hg hFe
+          refine ⟨s4, [r], ?_, ⟨r, rfl, hr5, hrep5⟩, h6, ha5⟩
+          simp only [Nat.sub_self] at h5
+          rw [h5, keepFrom_map_some ns _ (by rw [denoteVals_length]; omega), unkFill_map_some]
+          simp)
+        ps' p0 (ns.map some) [] [] false s2 fuel { w with cif := put (.mk code fs (ls ++ [mkLoop ns []])) } rfl
+        (by intro h; have := hlen p0 (by simp); rw [h] at this; exact hns (List.length_eq_zero_iff.mp this.symm))
+        (by simpa using hlen p0 (by simp)) (by simp) (Nat.le_refl _) (fun q hq => by simpa using hlen q (by simp [hq]))
+        (by intro h; exact hns (List.map_eq_nil_iff.mp h)) (hwv p0 (by simp)) (fun q hq => hwv q (by simp [hq])) (by omega) h2
+      subst hlg
+      refine ⟨s3, r, ?_, hr3, h4, (RepAt.shift haE hrepE).cast (by lenarith), ha4.cast (by lenarith)⟩
+      simp only [Nat.sub_self] at h3
+      rw [h3]
+      have hk : ∀ q ∈ p0 :: ps', keepFrom (ns.map some) (denoteVals o.dia o.normKey q) = denoteVals o.dia o.normKey q := by
+        intro q hq
+        apply keepFrom_map_some
+        rw [denoteVals_length, hlen q hq]; exact Nat.le_refl _
+      simp only [List.nil_append, List.map_cons, hk p0 (by simp), List.singleton_append, List.cons_append]
+      have hmap : List.map (fun p => keepFrom (ns.map some) (denoteVals o.dia o.normKey p)) ps' = List.map (denoteVals o.dia o.normKey) ps' := by
+        apply List.map_congr_left
+        intro q hq
+        exact hk q (by simp [hq])
+      rw [hmap]
+  obtain ⟨s3, r, h3, hr3, h4, hrep, ha4⟩ := hbody
+  refine ⟨s3, r, ?_, hr3, h4, (RepAt.shift a2 hrep).cast (by lenarith), (a2.trans ha4).cast (by lenarith)⟩
+  conv => lhs; rw [elemsLoop]
+  simp only [bind_eq, pure_eq, P.bind, P.pure, hn, hty, hcreate, h3]
+  simp [denoteItems, mkLoop, denoteVals_append, denoteVals_replicate_unk]
+
 
 theorem partial_packet_run (o : Opts) {path : Path} {put : Container → Cif} {code : Str} (hv : View o path put code)
     (pre post : List Item) (ns : List Str) (ps : List (List Val)) (pv : List Val) (seen seen2 : List Str) (rest : List TokSpec) (s : PS)
@@ -829,6 +1434,39 @@ theorem partial_packet_run (o : Opts) {path : Path} {put : Container → Cif} {c
     hfuel (fun _ => ⟨_, _, _, rfl, rfl⟩) hrest hF
   simpa [denoteItems_append, denoteItems] using this
 
+theorem partial_packet_run_at (o : Opts) {path : Path} {put : Container → Cif} {code : Str} (hv : View o path put code)
+    (pre post : List Item) (ns : List Str) (ps : List (List Val)) (pv : List Val) (seen seen2 : List Str) (rest : List TokSpec) (s : PS)
+    (fuel : Nat) (w : W) (fs : List Container) (ls : List Loop) (isBlock : Bool) (hcif : w.cif = put (.mk code fs ls))
+    (hpre : wfItems o pre seen = true) (hseen : ∀ k ∈ normNames o ls, k ∈ seen)
+    (hwf : ∀ n ∈ ns, wfName n = true) (hfresh : ∀ n ∈ ns, o.norm n ∉ normNames o (denoteItems o.dia o.normKey pre ls))
+    (hnd : (ns.map o.norm).Nodup) (hlen : ∀ p ∈ ps, p.length = ns.length) (hwv : ∀ p ∈ ps, wfVals o p = true)
+    (hpv : pv ≠ []) (hpl : pv.length < ns.length) (hwpv : wfVals o pv = true)
+    (hpost : wfItems o post seen2 = true)
+    (hseen2 : ∀ k ∈ normNames o (denoteItems o.dia o.normKey
+        [.loop ns (ps ++ [pv ++ List.replicate (ns.length - pv.length) Val.unk])] (denoteItems o.dia o.normKey pre ls)), k ∈ seen2)
+    (hfuel : szItems pre + szItems post + (ns.length + szPackets ps + szVals pv + 2) + 1 ≤ fuel)
+    (hnext : ∃ ty tx ts, itemsToks post ++ rest = (ty, tx) :: ts ∧ isTerminator ty = true)
+    (hrest : lastIsLoop post = true → ∃ ty tx ts, rest = (ty, tx) :: ts ∧ isTerminator ty = true)
+    (hF : Feeds o s (itemsToks pre ++ (((.loopKw, []) :: (ns.map (fun n => (TokType.name, n)) ++ (packetsToks ps ++ valsToks pv)))
+      ++ (itemsToks post ++ rest)))) :
+    ∃ s' r, elemsLoop o (fuel + post.length + 1 + pre.length) s (some path) isBlock acceptAll w
+        = elemsLoop o fuel s' (some path) isBlock acceptAll
+            { log := r :: w.log, cif := put (.mk code fs (denoteItems o.dia o.normKey
+                (pre ++ [.loop ns (ps ++ [pv ++ List.replicate (ns.length - pv.length) Val.unk])] ++ post) ls)) }
+      ∧ r.code = CIF_PARTIAL_PACKET ∧ Feeds o s' rest ∧ RepAt o s ((itemsToks pre).length + (1 + ns.length + (packetsToks ps).length + (valsToks pv).length)) r
+      ∧ At o s ((itemsToks pre).length + (1 + ns.length + (packetsToks ps).length + (valsToks pv).length) + (itemsToks post).length) s' := by
+  obtain ⟨ty, tx, ts, hnx, hterm⟩ := hnext
+  have := defect_run_at o hv pre post ((.loopKw, []) :: (ns.map (fun n => (TokType.name, n)) ++ (packetsToks ps ++ valsToks pv)))
+    (fun l => denoteItems o.dia o.normKey [.loop ns (ps ++ [pv ++ List.replicate (ns.length - pv.length) Val.unk])] l)
+    CIF_PARTIAL_PACKET (ns.length + szPackets ps + szVals pv + 2) (1 + ns.length + (packetsToks ps).length + (valsToks pv).length) (1 + ns.length + (packetsToks ps).length + (valsToks pv).length) seen seen2 rest s fuel w fs ls isBlock hcif hpre hseen hpost hseen2
+    (by
+      intro s1 w1 f hc hf hF1
+      rw [hnx] at hF1 ⊢
+      simp only [List.cons_append, List.append_assoc] at hF1
+      exact partial_packet_step_at o hv ns ps pv ty tx ts s1 f w1 fs _ isBlock hc hwf hfresh hnd hlen hwv hpv hpl hwpv hf hterm hF1)
+    hfuel (fun _ => ⟨_, _, _, rfl, rfl⟩) hrest hF
+  simpa [denoteItems_append, denoteItems] using this
+
 
 /-! ### a duplicate name in a loop header -/
 
@@ -856,6 +1494,36 @@ theorem header_run (o : Opts) {path : Path} {put : Container → Cif} {code : St
     obtain ⟨s2, h1, h2⟩ := header_run o hv fs ls ns (slots ++ [some n]) rest (consume s1) fuel pol w hcif
       (fun m hm => hwf m (by simp [hm])) (fun m hm => hfresh m (by simp [hm])) hnd' hr
     refine ⟨s2, ?_, h2⟩
+    have e : fuel + (n :: ns).length = (fuel + ns.length) + 1 := by simp; omega
+    rw [e, headerLoop]
+    simp only [bind_eq, pure_eq, P.bind, P.pure, hn, ht1, ht2, if_true, cstr_noNul hw.2,
+      itemExists_false o hv n fs ls pol w hcif hw.1 (hfresh n (by simp)), Bool.false_eq_true, if_false,
+      findHeaderName_noneG o slots n hw.1 hdist, h1]
+    simp
+
+theorem header_run_at (o : Opts) {path : Path} {put : Container → Cif} {code : Str} (hv : View o path put code)
+    (fs : List Container) (ls : List Loop) : ∀ (ns : List Str) (slots : List (Option Str)) (rest : List TokSpec) (s : PS) (fuel : Nat)
+      (pol : Policy) (w : W),
+      w.cif = put (.mk code fs ls) → (∀ n ∈ ns, wfName n = true) → (∀ n ∈ ns, o.norm n ∉ normNames o ls) →
+      ((slots.filterMap id ++ ns).map o.norm).Nodup → Feeds o s (ns.map (fun n => (TokType.name, n)) ++ rest) →
+      ∃ s', headerLoop o (some path) (fuel + ns.length) s slots pol w = headerLoop o (some path) fuel s' (slots ++ ns.map some) pol w
+        ∧ Feeds o s' rest ∧ At o s ns.length s'
+  | [], slots, rest, s, fuel, pol, w, _, _, _, _, hF => ⟨s, by simp, by simpa using hF, At.refl o s⟩
+  | n :: ns, slots, rest, s, fuel, pol, w, hcif, hwf, hfresh, hnd, hF => by
+    simp only [List.map_cons, List.cons_append] at hF
+    obtain ⟨t, s1, ht1, ht2, hn, ht, hr⟩ := hF.inv
+    have hw := hwf n (by simp)
+    simp only [wfName, Bool.and_eq_true] at hw
+    have hdist : ∀ m ∈ slots.filterMap id, o.norm m ≠ o.norm n := by
+      intro m hm heq
+      have h1 : ((slots.filterMap id ++ n :: ns).map o.norm) = (slots.filterMap id).map o.norm ++ o.norm n :: ns.map o.norm := by simp
+      rw [h1] at hnd
+      exact (List.nodup_append.mp hnd).2.2 (o.norm m) (List.mem_map.mpr ⟨m, hm, rfl⟩) (o.norm n) (by simp) heq
+    have hnd' : (((slots ++ [some n]).filterMap id ++ ns).map o.norm).Nodup := by
+      simpa [List.filterMap_append] using hnd
+    obtain ⟨s2, h1, h2, ha2⟩ := header_run_at o hv fs ls ns (slots ++ [some n]) rest (consume s1) fuel pol w hcif
+      (fun m hm => hwf m (by simp [hm])) (fun m hm => hfresh m (by simp [hm])) hnd' hr
+    refine ⟨s2, ?_, h2, (((At.refl o s).step hn ht).trans ha2).cast (by simp; omega)⟩
     have e : fuel + (n :: ns).length = (fuel + ns.length) + 1 := by simp; omega
     rw [e, headerLoop]
     simp only [bind_eq, pure_eq, P.bind, P.pure, hn, ht1, ht2, if_true, cstr_noNul hw.2,
@@ -957,6 +1625,91 @@ theorem dup_header_step (o : Opts) {path : Path} {put : Container → Cif} {code
     exact hk q (by simp [hq])
   simp only [List.nil_append, List.append_nil, List.map_cons, hk p0 (by simp), hmap, List.singleton_append]
 
+theorem dup_header_step_at (o : Opts) {path : Path} {put : Container → Cif} {code : Str} (hv : View o path put code)
+    (ns1 ns2 : List Str) (n' : Str) (p0 : List Val) (ps : List (List Val)) (ty : TokType) (tx : Str) (ts : List TokSpec) (s : PS)
+    (fuel : Nat) (w : W) (fs : List Container) (ls : List Loop) (isBlock : Bool) (hcif : w.cif = put (.mk code fs ls))
+    (hwf : ∀ n ∈ ns1 ++ ns2, wfName n = true) (hfresh : ∀ n ∈ ns1 ++ ns2, o.norm n ∉ normNames o ls)
+    (hnd : ((ns1 ++ ns2).map o.norm).Nodup) (hne : ns1 ++ ns2 ≠ [])
+    (hname : wfName n' = true)
+    (hdup : o.norm n' ∈ normNames o ls ∨ ∃ m ∈ ns1, o.norm m = o.norm n')
+    (hlen : ∀ p ∈ p0 :: ps, p.length = ns1.length + 1 + ns2.length) (hwv : ∀ p ∈ p0 :: ps, wfVals o p = true)
+    (hfuel : ns1.length + ns2.length + szPackets (p0 :: ps) + 3 ≤ fuel) (hterm : isTerminator ty = true)
+    (hF : Feeds o s ((.loopKw, []) :: (ns1.map (fun n => (TokType.name, n)) ++ ((.name, n') ::
+      (ns2.map (fun n => (TokType.name, n)) ++ (packetsToks (p0 :: ps) ++ (ty, tx) :: ts)))))) :
+    ∃ s' r, elemsLoop o (fuel + 1) s (some path) isBlock acceptAll w
+        = elemsLoop o fuel s' (some path) isBlock acceptAll
+            { log := r :: w.log, cif := put (.mk code fs (ls ++ [mkLoop (ns1 ++ ns2)
+                ((p0 :: ps).map (fun p => (denoteVals o.dia o.normKey p).eraseIdx ns1.length))])) }
+      ∧ r.code = CIF_DUP_ITEMNAME ∧ Feeds o s' ((ty, tx) :: ts) ∧ RepAt o s (1 + ns1.length) r
+      ∧ At o s (1 + ns1.length + 1 + ns2.length + (packetsToks (p0 :: ps)).length) s' := by
+  obtain ⟨t, s1, hty, _, hn, ht, hr⟩ := hF.inv
+  obtain ⟨g, hg⟩ : ∃ g, fuel = (g + 1) + ns1.length := ⟨fuel - ns1.length - 1, by omega⟩
+  -- the names in front of the duplicate
+  obtain ⟨s2, h1, h2, ha2⟩ := header_run_at o hv fs ls ns1 [] _ (consume s1) (g + 1) acceptAll w hcif
+    (fun n hn' => hwf n (by simp [hn'])) (fun n hn' => hfresh n (by simp [hn']))
+    (by simp only [List.filterMap_nil, List.nil_append]; exact (List.nodup_append.mp (by simpa using hnd)).1) hr
+  simp only [List.nil_append] at h1
+  have a2 := ((At.refl o s).step hn ht).trans ha2
+  -- the duplicate
+  obtain ⟨s3, r, h3, hr3, h4, hrep3, ha3⟩ := dup_header_name_step_at o hv fs ls n' (ns1.map some) _ s2 g w hcif hname
+    (by
+      rcases hdup with h | ⟨m, hm, hmn⟩
+      · exact Or.inl h
+      · refine Or.inr ⟨m, by rw [filterMap_map_some]; exact hm, ?_, hmn⟩
+        have := hwf m (by simp [hm]); simp only [wfName, Bool.and_eq_true] at this; exact this.1) h2
+  -- the names behind it
+  have hfirst : ∃ ty' tx' ts', packetsToks (p0 :: ps) ++ (ty, tx) :: ts = (ty', tx') :: ts' ∧ ty' ≠ .name := by
+    have hp0 : p0 ≠ [] := by intro h; have := hlen p0 (by simp); rw [h] at this; simp at this; omega
+    cases p0 with
+    | nil => exact absurd rfl hp0
+    | cons v r2 =>
+      obtain ⟨a, b, c, h, hs, _⟩ := valToks_head v
+      exact ⟨a, b, c ++ (valsToks r2 ++ (packetsToks ps ++ (ty, tx) :: ts)), by simp [packetsToks, valsToks, h, List.append_assoc],
+        by intro e; rw [e] at hs; cases hs⟩
+  obtain ⟨s4, h5, h6, ha6⟩ := header_structureG_at o hv fs ls ns2 (ns1.map some ++ [none]) _ s3 g acceptAll { w with log := r :: w.log } hcif
+    (fun n hn' => hwf n (by simp [hn'])) (fun n hn' => hfresh n (by simp [hn']))
+    (by simpa [List.filterMap_append, filterMap_map_some] using hnd) (by omega) hfirst h4
+  have hslots : (ns1.map some ++ [none] ++ ns2.map some).filterMap id = ns1 ++ ns2 := by
+    simp [List.filterMap_append, filterMap_map_some]
+  have hhead : headerLoop o (some path) fuel (consume s1) [] acceptAll w
+      = .ok (ns1.map some ++ [none] ++ ns2.map some, s4) { w with log := r :: w.log } := by
+    rw [hg, h1, h3, h5]
+  have hcreate := parseLoop_create o hv fs ls (ns1.map some ++ [none] ++ ns2.map some) (consume s1) s4 fuel acceptAll w
+    { w with log := r :: w.log } hhead hcif (by rw [hslots]; exact hne)
+    (by rw [hslots]; intro n hn'; have := hwf n hn'; simp only [wfName, Bool.and_eq_true] at this; exact this.1)
+    (by rw [hslots]; exact hfresh) (by rw [hslots]; exact hnd)
+  rw [hslots] at hcreate
+  have hsl : (ns1.map some ++ [none] ++ ns2.map some).length = ns1.length + 1 + ns2.length := by simp; omega
+  simp only [packetsToks, List.append_assoc] at h6
+  obtain ⟨s5, lg, h7, ⟨_, _, hlg⟩, h8, ha8⟩ := packetsG_at o hv fs ls (ns1.map some ++ [none] ++ ns2.map some) (ns1 ++ ns2) acceptAll []
+    (fun _ lg => lg = []) 0
+    ((ty, tx) :: ts) ((ty, tx) :: ts) 1 (Nat.le_refl _)
+    (packets_end_plain_at o fs ls _ _ acceptAll ty tx ts hterm)
+    ps p0 (ns1.map some ++ [none] ++ ns2.map some) [] [] false s4 fuel
+    { log := r :: w.log, cif := put (.mk code fs (ls ++ [mkLoop (ns1 ++ ns2) []])) } rfl
+    (by intro h; have := hlen p0 (by simp); rw [h] at this; simp at this; omega)
+    (by rw [hsl]; exact hlen p0 (by simp)) (by simp) (Nat.le_refl _) (fun q hq => by rw [hsl]; exact hlen q (by simp [hq]))
+    (by simp) (hwv p0 (by simp)) (fun q hq => hwv q (by simp [hq])) (by simp only [szPackets] at hfuel; omega) h6
+  subst hlg
+  refine ⟨s5, r, ?_, hr3, h8, (RepAt.shift a2 hrep3).cast (by lenarith),
+    ((((a2.trans ha3).trans ha6).trans ha8)).cast (by lenarith)⟩
+  conv => lhs; rw [elemsLoop]
+  simp only [bind_eq, pure_eq, P.bind, P.pure, hn, hty, hcreate]
+  simp only [Nat.sub_self] at h7
+  rw [h7]
+  have hk : ∀ q ∈ p0 :: ps, keepFrom (ns1.map some ++ [none] ++ ns2.map some) (denoteVals o.dia o.normKey q)
+      = (denoteVals o.dia o.normKey q).eraseIdx ns1.length := by
+    intro q hq
+    have e : ns1.map some ++ [none] ++ ns2.map some = ns1.map some ++ none :: ns2.map some := by simp
+    rw [e]
+    exact keepFrom_drop_col ns1 ns2 _ (by rw [denoteVals_length]; exact hlen q hq)
+  have hmap : List.map (fun p => keepFrom (ns1.map some ++ [none] ++ ns2.map some) (denoteVals o.dia o.normKey p)) ps
+      = List.map (fun p => (denoteVals o.dia o.normKey p).eraseIdx ns1.length) ps := by
+    apply List.map_congr_left
+    intro q hq
+    exact hk q (by simp [hq])
+  simp only [List.nil_append, List.append_nil, List.map_cons, hk p0 (by simp), hmap, List.singleton_append]
+
 
 theorem dup_header_run (o : Opts) {path : Path} {put : Container → Cif} {code : Str} (hv : View o path put code)
     (pre post : List Item) (ns1 ns2 : List Str) (n' : Str) (p0 : List Val) (ps : List (List Val)) (seen seen2 : List Str)
@@ -994,6 +1747,43 @@ theorem dup_header_run (o : Opts) {path : Path} {put : Container → Cif} {code 
       exact dup_header_step o hv ns1 ns2 n' p0 ps ty tx ts s1 f w1 fs _ isBlock hc hwf hfresh hnd hne hname hdup hlen hwv hf hterm hF1)
     hfuel (fun _ => ⟨_, _, _, rfl, rfl⟩) hrest hF
 
+theorem dup_header_run_at (o : Opts) {path : Path} {put : Container → Cif} {code : Str} (hv : View o path put code)
+    (pre post : List Item) (ns1 ns2 : List Str) (n' : Str) (p0 : List Val) (ps : List (List Val)) (seen seen2 : List Str)
+    (rest : List TokSpec) (s : PS) (fuel : Nat) (w : W) (fs : List Container) (ls : List Loop) (isBlock : Bool)
+    (hcif : w.cif = put (.mk code fs ls)) (hpre : wfItems o pre seen = true) (hseen : ∀ k ∈ normNames o ls, k ∈ seen)
+    (hwf : ∀ n ∈ ns1 ++ ns2, wfName n = true)
+    (hfresh : ∀ n ∈ ns1 ++ ns2, o.norm n ∉ normNames o (denoteItems o.dia o.normKey pre ls))
+    (hnd : ((ns1 ++ ns2).map o.norm).Nodup) (hne : ns1 ++ ns2 ≠ []) (hname : wfName n' = true)
+    (hdup : o.norm n' ∈ normNames o (denoteItems o.dia o.normKey pre ls) ∨ ∃ m ∈ ns1, o.norm m = o.norm n')
+    (hlen : ∀ p ∈ p0 :: ps, p.length = ns1.length + 1 + ns2.length) (hwv : ∀ p ∈ p0 :: ps, wfVals o p = true)
+    (hpost : wfItems o post seen2 = true)
+    (hseen2 : ∀ k ∈ normNames o (denoteItems o.dia o.normKey pre ls ++ [mkLoop (ns1 ++ ns2)
+        ((p0 :: ps).map (fun p => (denoteVals o.dia o.normKey p).eraseIdx ns1.length))]), k ∈ seen2)
+    (hfuel : szItems pre + szItems post + (ns1.length + ns2.length + szPackets (p0 :: ps) + 3) + 1 ≤ fuel)
+    (hnext : ∃ ty tx ts, itemsToks post ++ rest = (ty, tx) :: ts ∧ isTerminator ty = true)
+    (hrest : lastIsLoop post = true → ∃ ty tx ts, rest = (ty, tx) :: ts ∧ isTerminator ty = true)
+    (hF : Feeds o s (itemsToks pre ++ (((.loopKw, []) :: (ns1.map (fun n => (TokType.name, n)) ++ ((.name, n') ::
+      (ns2.map (fun n => (TokType.name, n)) ++ packetsToks (p0 :: ps))))) ++ (itemsToks post ++ rest)))) :
+    ∃ s' r, elemsLoop o (fuel + post.length + 1 + pre.length) s (some path) isBlock acceptAll w
+        = elemsLoop o fuel s' (some path) isBlock acceptAll
+            { log := r :: w.log, cif := put (.mk code fs (denoteItems o.dia o.normKey post
+                (denoteItems o.dia o.normKey pre ls ++ [mkLoop (ns1 ++ ns2)
+                  ((p0 :: ps).map (fun p => (denoteVals o.dia o.normKey p).eraseIdx ns1.length))]))) }
+      ∧ r.code = CIF_DUP_ITEMNAME ∧ Feeds o s' rest ∧ RepAt o s ((itemsToks pre).length + (1 + ns1.length)) r
+      ∧ At o s ((itemsToks pre).length + (1 + ns1.length + 1 + ns2.length + (packetsToks (p0 :: ps)).length) + (itemsToks post).length) s' := by
+  obtain ⟨ty, tx, ts, hnx, hterm⟩ := hnext
+  exact defect_run_at o hv pre post ((.loopKw, []) :: (ns1.map (fun n => (TokType.name, n)) ++ ((.name, n') ::
+      (ns2.map (fun n => (TokType.name, n)) ++ packetsToks (p0 :: ps)))))
+    (fun l => l ++ [mkLoop (ns1 ++ ns2) ((p0 :: ps).map (fun p => (denoteVals o.dia o.normKey p).eraseIdx ns1.length))])
+    CIF_DUP_ITEMNAME (ns1.length + ns2.length + szPackets (p0 :: ps) + 3) (1 + ns1.length) (1 + ns1.length + 1 + ns2.length + (packetsToks (p0 :: ps)).length) seen seen2 rest s fuel w fs ls isBlock hcif hpre hseen hpost
+    hseen2
+    (by
+      intro s1 w1 f hc hf hF1
+      rw [hnx] at hF1 ⊢
+      simp only [List.cons_append, List.append_assoc] at hF1
+      exact dup_header_step_at o hv ns1 ns2 n' p0 ps ty tx ts s1 f w1 fs _ isBlock hc hwf hfresh hnd hne hname hdup hlen hwv hf hterm hF1)
+    hfuel (fun _ => ⟨_, _, _, rfl, rfl⟩) hrest hF
+
 /-! ### a table key that cannot be a table index (it holds a character CIF does not allow): the entry is dropped -/
 
 /-- `… "k":value …}` where `cif_value_set_item_by_key` refuses the key: exactly one CIF_INVALID_INDEX, at the scanner's line behind
@@ -1017,6 +1807,32 @@ theorem table_invalid_index_tail (o : Opts) (t : Tok) (s' : PS) (v : Val) (epost
   obtain ⟨s3, h1, h2⟩ := value_structure o v _ s2 F acceptAll { w1 with log := r0 :: w1.log } hwv (by omega) hpend
   obtain ⟨s4, h4, h5⟩ := entries_structure o epost X s3 F acceptAll { w1 with log := r0 :: w1.log } acc1 hepost (by omega) h2
   refine ⟨s4, r0, ?_, rfl, rfl, h5⟩
+  rw [tableLoop]
+  simp only [bind_eq, pure_eq, P.bind, P.pure, hn, hty]
+  rw [tableEntry]
+  simp only [bind_eq, pure_eq, P.bind, P.pure, hbad, if_true, report_accept, hn2, hty2, hstart, h1, h4, r0]
+
+theorem table_invalid_index_tail_at (o : Opts) (t : Tok) (s' : PS) (v : Val) (epost : List (Str × Presentation × Val))
+    (X : List TokSpec) (fuel : Nat) (s1 : PS) (w1 : W) (acc1 : List (Str × Str × V))
+    (hn : ∀ pol w, nextTok o s1 pol w = .ok (t, s') w) (htk : s'.tok = some t) (hty : t.ty = .key) (hbad : hasDisallowed (cstr t.text) = true)
+    (hwv : wfVal o v = true) (hepost : wfEntries o epost = true) (hf : szVal v + szEntries epost + 3 ≤ fuel)
+    (hre : Feeds o (consume s') (valToks v ++ (entriesToks epost ++ (.ctable, [125]) :: X))) :
+    ∃ s2 r, tableLoop o fuel s1 acc1 acceptAll w1
+        = .ok (denoteEntries o.dia o.normKey epost acc1, s2) { w1 with log := r :: w1.log }
+      ∧ r.code = CIF_INVALID_INDEX ∧ r.line = s'.scan.line ∧ Feeds o s2 X ∧ RepAt o s1 1 r
+      ∧ At o s1 (1 + (valToks v).length + (entriesToks epost).length + 1) s2 := by
+  obtain ⟨F, rfl⟩ : ∃ F, fuel = F + 2 := ⟨fuel - 2, by omega⟩
+  obtain ⟨vty, vtx, vts, hvt, hstart, _⟩ := valToks_head v
+  have hr' := hre
+  rw [hvt, List.cons_append] at hr'
+  obtain ⟨t2, s2, hty2, htx2, hn2, ht2, hr2⟩ := hr'.inv
+  have hpend : Feeds o s2 (valToks v ++ (entriesToks epost ++ (.ctable, [125]) :: X)) := by
+    rw [hvt, List.cons_append, ← hty2, ← htx2]; exact Feeds.pending ht2 hr2
+  let r0 : Report := ⟨CIF_INVALID_INDEX, (consume s').scan.line, (consume s').scan.col⟩
+  have a1 : At o s1 1 (consume s') := (At.refl o s1).step hn htk
+  obtain ⟨s3, h1, h2, ha2⟩ := value_structure_at o v _ s2 F acceptAll { w1 with log := r0 :: w1.log } hwv (by omega) hpend
+  obtain ⟨s4, h4, h5, ha5⟩ := entries_structure_at o epost X s3 F acceptAll { w1 with log := r0 :: w1.log } acc1 hepost (by omega) h2
+  refine ⟨s4, r0, ?_, rfl, rfl, h5, ⟨consume s', a1, rfl⟩, (((a1.peek hn2 ht2).trans ha2).trans ha5).cast (by omega)⟩
   rw [tableLoop]
   simp only [bind_eq, pure_eq, P.bind, P.pure, hn, hty]
   rw [tableEntry]
